@@ -6,8 +6,7 @@
 //           written from the property statement (linear scans, no shared code).
 // Part (b): vx::bfs over CRUD histories (sets / statements / policies / assignments).
 //
-// The code is split over several files (`c14_*.rs`, included below) only to keep the
-// individual files readable; they form one module.
+// (single file; sections: driver, core model + reference, set conditions, chaining, CRUD)
 
 use crate::vx::bfs::{self, BfsCfg};
 use crate::vx::enumr;
@@ -24,10 +23,6 @@ use std::collections::{BTreeMap, BTreeSet, HashSet};
 use std::net::{IpAddr, Ipv4Addr, Ipv6Addr};
 use std::sync::{Arc, Mutex};
 
-include!("c14_core.rs");
-include!("c14_sets.rs");
-include!("c14_chain.rs");
-include!("c14_crud.rs");
 
 pub fn run(replay: Option<&str>) -> Report {
     let mut rep = Report::new("C14", "hx-c14");
@@ -98,5 +93,2988 @@ fn run_replay(mut rep: Report, case: &str) -> Report {
         eprintln!("  VIOLATION {sig}: {what}");
         rep.violation(Violation { sig, what, case });
     }
+    rep
+}
+
+// ===========================================================================
+// Core: plain models of programs and routes, installation through the public
+// API, subject evaluation, reference interpreter.
+// ===========================================================================
+
+#[derive(Clone, Copy, PartialEq, Eq, Debug, Hash, PartialOrd, Ord)]
+enum Opt {
+    Any,
+    All,
+    Invert,
+}
+const OPTS: [Opt; 3] = [Opt::Any, Opt::All, Opt::Invert];
+
+impl Opt {
+    fn cfg(self) -> MatchOption {
+        match self {
+            Opt::Any => MatchOption::Any,
+            Opt::All => MatchOption::All,
+            Opt::Invert => MatchOption::Invert,
+        }
+    }
+    /// "ANY/ALL/INVERT mean what they say" over the per-pattern verdicts.
+    fn combine(self, per_pattern: &[bool]) -> bool {
+        match self {
+            Opt::Any => per_pattern.iter().any(|&b| b),
+            Opt::All => per_pattern.iter().all(|&b| b),
+            Opt::Invert => !per_pattern.iter().any(|&b| b),
+        }
+    }
+}
+
+#[derive(Clone, Copy, PartialEq, Eq, Debug, Hash, PartialOrd, Ord)]
+enum Disp {
+    Accept,
+    Reject,
+    Pass,
+}
+impl Disp {
+    fn cfg(self) -> Disposition {
+        match self {
+            Disp::Accept => Disposition::Accept,
+            Disp::Reject => Disposition::Reject,
+            Disp::Pass => Disposition::Pass,
+        }
+    }
+    fn of(d: Disposition) -> Disp {
+        match d {
+            Disposition::Accept => Disp::Accept,
+            Disposition::Reject => Disp::Reject,
+            Disposition::Pass => Disp::Pass,
+        }
+    }
+}
+
+#[derive(Clone, Copy, PartialEq, Eq, Debug)]
+enum Cmp {
+    Eq,
+    Ge,
+    Le,
+}
+impl Cmp {
+    fn cfg(self) -> Comparison {
+        match self {
+            Cmp::Eq => Comparison::Eq,
+            Cmp::Ge => Comparison::Ge,
+            Cmp::Le => Comparison::Le,
+        }
+    }
+    fn holds(self, l: u64, v: u64) -> bool {
+        match self {
+            Cmp::Eq => l == v,
+            Cmp::Ge => l >= v,
+            Cmp::Le => l <= v,
+        }
+    }
+}
+
+#[derive(Clone, Copy, PartialEq, Eq, Debug)]
+enum Dir {
+    Import,
+    Export,
+}
+
+/// Prefix-set entry.  `addr` is left-aligned in 128 bits for both families.
+#[derive(Clone, Debug, PartialEq)]
+struct PEntry {
+    v6: bool,
+    addr: u128,
+    plen: u8,
+    min: u8,
+    max: u8,
+}
+
+fn net_str(v6: bool, addr: u128, len: u8) -> String {
+    if v6 {
+        format!("{}/{}", Ipv6Addr::from(addr), len)
+    } else {
+        format!("{}/{}", Ipv4Addr::from((addr >> 96) as u32), len)
+    }
+}
+
+impl PEntry {
+    fn text(&self) -> String {
+        format!("{}[{}..{}]", net_str(self.v6, self.addr, self.plen), self.min, self.max)
+    }
+    /// "a set entry covers the route's prefix": the entry is not longer than the
+    /// route and the first plen bits agree.
+    fn covers(&self, v6: bool, addr: u128, len: u8) -> bool {
+        if self.v6 != v6 || self.plen > len {
+            return false;
+        }
+        self.plen == 0 || (self.addr ^ addr) >> (128 - self.plen as u32) == 0
+    }
+    fn matches(&self, v6: bool, addr: u128, len: u8) -> bool {
+        self.covers(v6, addr, len) && self.min <= len && len <= self.max
+    }
+}
+
+#[derive(Clone, Copy, PartialEq, Eq, Debug, Hash, PartialOrd, Ord)]
+enum AsForm {
+    Include,
+    LeftMost,
+    Origin,
+    Only,
+}
+
+#[derive(Clone, Debug, PartialEq)]
+enum AsPat {
+    /// `_N_` `^N_` `_N$` `^N$` and the range variants `_A-B_` ...
+    Single { form: AsForm, lo: u32, hi: u32 },
+    /// probe: "^1_2$" -- a genuine (non single-form) regular expression
+    Regex12,
+}
+
+impl AsPat {
+    fn text(&self) -> String {
+        match self {
+            AsPat::Single { form, lo, hi } => {
+                let n = if lo == hi { format!("{lo}") } else { format!("{lo}-{hi}") };
+                match form {
+                    AsForm::Include => format!("_{n}_"),
+                    AsForm::LeftMost => format!("^{n}_"),
+                    AsForm::Origin => format!("_{n}$"),
+                    AsForm::Only => format!("^{n}$"),
+                }
+            }
+            AsPat::Regex12 => "^1_2$".to_string(),
+        }
+    }
+    fn class(&self) -> &'static str {
+        match self {
+            AsPat::Single { form: AsForm::Include, .. } => "include",
+            AsPat::Single { form: AsForm::LeftMost, .. } => "leftmost",
+            AsPat::Single { form: AsForm::Origin, .. } => "origin",
+            AsPat::Single { form: AsForm::Only, .. } => "only",
+            AsPat::Regex12 => "regex(non-single-form)",
+        }
+    }
+}
+
+type Segs = Vec<(u8, Vec<u32>)>;
+const SEG_SET: u8 = 1;
+const SEG_SEQ: u8 = 2;
+const SEG_CSEQ: u8 = 3;
+const SEG_CSET: u8 = 4;
+
+/// Acceptable verdicts of one AS-path pattern on one path.  Several readings are
+/// accepted (the statement does not pin the pattern semantics on odd paths):
+///  G = GoBGP: the list of AS_SEQUENCE members, other segment types contribute a 0 placeholder;
+///  F = flat: all members of all segments in order;
+///  S = per segment: first member of the first segment / last member of the last segment.
+/// On paths made only of non-empty AS_SEQUENCE segments all readings agree.
+fn as_pat_readings(p: &AsPat, path: Option<&Segs>) -> BTreeSet<bool> {
+    let mut out = BTreeSet::new();
+    let Some(segs) = path else {
+        out.insert(false);
+        return out;
+    };
+    match p {
+        AsPat::Single { form, lo, hi } => {
+            let inr = |x: u32| *lo <= x && x <= *hi;
+            let on_list = |l: &[u32]| -> bool {
+                match form {
+                    AsForm::Include => l.iter().any(|&x| inr(x)),
+                    AsForm::LeftMost => !l.is_empty() && inr(l[0]),
+                    AsForm::Origin => !l.is_empty() && inr(l[l.len() - 1]),
+                    AsForm::Only => l.len() == 1 && inr(l[0]),
+                }
+            };
+            let mut g = Vec::new();
+            let mut f = Vec::new();
+            for (t, m) in segs {
+                if *t == SEG_SEQ {
+                    g.extend_from_slice(m);
+                } else {
+                    g.push(0);
+                }
+                f.extend_from_slice(m);
+            }
+            out.insert(on_list(&g));
+            out.insert(on_list(&f));
+            let s = match form {
+                AsForm::Include => segs.iter().any(|(_, m)| m.iter().any(|&x| inr(x))),
+                AsForm::LeftMost => segs.first().is_some_and(|(_, m)| m.first().is_some_and(|&x| inr(x))),
+                AsForm::Origin => segs.last().is_some_and(|(_, m)| m.last().is_some_and(|&x| inr(x))),
+                AsForm::Only => segs.len() == 1 && segs[0].1.len() == 1 && inr(segs[0].1[0]),
+            };
+            out.insert(s);
+        }
+        AsPat::Regex12 => {
+            // "^1_2$": AS 1 immediately followed by AS 2 and nothing else.  Judged only on
+            // paths of non-empty AS_SEQUENCE segments (string form "1 2"); don't-care elsewhere.
+            let normal = !segs.is_empty() && segs.iter().all(|(t, m)| *t == SEG_SEQ && !m.is_empty());
+            if normal || segs.is_empty() {
+                let flat: Vec<u32> = segs.iter().flat_map(|(_, m)| m.iter().copied()).collect();
+                out.insert(flat == [1, 2]);
+            } else {
+                out.insert(true);
+                out.insert(false);
+            }
+        }
+    }
+    out
+}
+
+/// Three readings evaluated consistently over all patterns of a set.
+fn as_set_readings(pats: &[AsPat], opt: Opt, path: Option<&Segs>) -> BTreeSet<bool> {
+    // enumerate the product of per-pattern acceptable verdicts (tiny)
+    let per: Vec<Vec<bool>> = pats.iter().map(|p| as_pat_readings(p, path).into_iter().collect()).collect();
+    let mut out = BTreeSet::new();
+    let dims: Vec<usize> = per.iter().map(|v| v.len()).collect();
+    for i in 0..enumr::product_size(&dims) {
+        let d = enumr::digits(i, &dims);
+        let verdicts: Vec<bool> = d.iter().enumerate().map(|(k, &j)| per[k][j]).collect();
+        out.insert(opt.combine(&verdicts));
+    }
+    out
+}
+
+#[derive(Clone, Debug, PartialEq)]
+enum CommPat {
+    /// text "H:L"
+    Exact(u16, u16),
+    /// text = decimal u32
+    Numeric(u32),
+    /// text "^H:.*$"
+    HighAny(u16),
+    /// text = well-known name, value per RFC 1997 / IANA
+    WellKnown(&'static str, u32),
+}
+impl CommPat {
+    fn text(&self) -> String {
+        match self {
+            CommPat::Exact(h, l) => format!("{h}:{l}"),
+            CommPat::Numeric(v) => format!("{v}"),
+            CommPat::HighAny(h) => format!("^{h}:.*$"),
+            CommPat::WellKnown(n, _) => n.to_string(),
+        }
+    }
+    fn class(&self) -> &'static str {
+        match self {
+            CommPat::Exact(..) => "H:L",
+            CommPat::Numeric(_) => "numeric",
+            CommPat::HighAny(_) => "regex",
+            CommPat::WellKnown(..) => "wellknown-name",
+        }
+    }
+    fn matches(&self, c: u32) -> bool {
+        match self {
+            CommPat::Exact(h, l) => c == ((*h as u32) << 16 | *l as u32),
+            CommPat::Numeric(v) => c == *v,
+            CommPat::HighAny(h) => (c >> 16) as u16 == *h,
+            CommPat::WellKnown(_, v) => c == *v,
+        }
+    }
+}
+
+/// Extended community values the harness uses: two-octet-AS route target / site of origin,
+/// and one of an unknown type (no string form).
+fn ext_rt(asn: u16, local: u32) -> [u8; 8] {
+    let a = asn.to_be_bytes();
+    let l = local.to_be_bytes();
+    [0x00, 0x02, a[0], a[1], l[0], l[1], l[2], l[3]]
+}
+fn ext_soo(asn: u16, local: u32) -> [u8; 8] {
+    let mut v = ext_rt(asn, local);
+    v[1] = 0x03;
+    v
+}
+const EXT_UNKNOWN: [u8; 8] = [0x80, 0x99, 0, 1, 0, 0, 0, 1];
+
+#[derive(Clone, Debug, PartialEq)]
+enum ExtPat {
+    /// "^rt:A:L$" / "^soo:A:L$"
+    Exact(bool, u16, u32),
+    /// "^rt:A:.*$"
+    RtAsnAny(u16),
+}
+impl ExtPat {
+    fn text(&self) -> String {
+        match self {
+            ExtPat::Exact(false, a, l) => format!("^rt:{a}:{l}$"),
+            ExtPat::Exact(true, a, l) => format!("^soo:{a}:{l}$"),
+            ExtPat::RtAsnAny(a) => format!("^rt:{a}:.*$"),
+        }
+    }
+    fn matches(&self, c: &[u8; 8]) -> bool {
+        if c[0] != 0x00 || (c[1] != 0x02 && c[1] != 0x03) {
+            return false;
+        }
+        let soo = c[1] == 0x03;
+        let asn = u16::from_be_bytes([c[2], c[3]]);
+        let local = u32::from_be_bytes([c[4], c[5], c[6], c[7]]);
+        match self {
+            ExtPat::Exact(s, a, l) => *s == soo && *a == asn && *l == local,
+            ExtPat::RtAsnAny(a) => !soo && *a == asn,
+        }
+    }
+}
+
+#[derive(Clone, Debug, PartialEq)]
+enum LargePat {
+    /// "^A:B:C$"
+    Exact(u32, u32, u32),
+    /// "^A:\d+:\d+$"
+    GlobalAny(u32),
+}
+impl LargePat {
+    fn text(&self) -> String {
+        match self {
+            LargePat::Exact(a, b, c) => format!("^{a}:{b}:{c}$"),
+            LargePat::GlobalAny(a) => format!("^{a}:\\d+:\\d+$"),
+        }
+    }
+    fn matches(&self, v: &(u32, u32, u32)) -> bool {
+        match self {
+            LargePat::Exact(a, b, c) => (*a, *b, *c) == *v,
+            LargePat::GlobalAny(a) => *a == v.0,
+        }
+    }
+}
+
+#[derive(Clone, Copy, PartialEq, Eq, Debug)]
+enum RT {
+    Internal,
+    External,
+    Local,
+}
+#[derive(Clone, Copy, PartialEq, Eq, Debug)]
+enum Rov {
+    NotFound,
+    Valid,
+    Invalid,
+}
+
+#[derive(Clone, Debug)]
+enum RCond {
+    Prefix(Vec<PEntry>, Opt),
+    Neighbor(Vec<(IpAddr, u8)>, Opt),
+    AsPath(Vec<AsPat>, Opt),
+    Comm(Vec<CommPat>, Opt),
+    Ext(Vec<ExtPat>, Opt),
+    Large(Vec<LargePat>, Opt),
+    AsPathLen(Cmp, u32),
+    Nexthop(Vec<IpAddr>),
+    Rpki(Rov),
+    LocalPrefEq(u32),
+    MedEq(u32),
+    Origin(u8),
+    RouteType(RT),
+    CommCount(Cmp, u32),
+    AfiSafiIn(Vec<bool>), // list of families: false = IPv4 unicast, true = IPv6 unicast
+}
+
+#[derive(Clone, Debug, PartialEq)]
+enum RAct {
+    SetLp(u32),
+    CommAdd(Vec<u32>),
+    CommRemove(Vec<u32>),
+    CommReplace(Vec<u32>),
+    MedMod(i64),
+    MedSet(i64),
+    NhAddr(IpAddr),
+    NhSelf,
+    NhPeer,
+    NhUnchanged,
+    Origin(u8),
+}
+
+#[derive(Clone, Debug, Default)]
+struct RStmt {
+    conds: Vec<RCond>,
+    disp: Option<Disp>,
+    acts: Vec<RAct>,
+}
+#[derive(Clone, Debug, Default)]
+struct RPolicy {
+    stmts: Vec<RStmt>,
+}
+#[derive(Clone, Debug)]
+struct RAssign {
+    policies: Vec<RPolicy>,
+    default: Disp,
+}
+
+fn one_cond(c: RCond, default: Disp) -> RAssign {
+    // matching statement accepts/rejects opposite to the default, so that the
+    // condition's verdict is visible in the disposition
+    let d = if default == Disp::Accept { Disp::Reject } else { Disp::Accept };
+    RAssign {
+        policies: vec![RPolicy { stmts: vec![RStmt { conds: vec![c], disp: Some(d), acts: vec![] }] }],
+        default,
+    }
+}
+
+#[derive(Clone, Copy, PartialEq, Eq, Debug)]
+enum Src {
+    Ebgp,
+    Ibgp,
+    Local,
+}
+
+#[derive(Clone, Debug)]
+struct RRoute {
+    v6: bool,
+    addr: u128,
+    len: u8,
+    origin: Option<u32>,
+    as_path: Option<Segs>,
+    med: Option<u32>,
+    lp: Option<u32>,
+    comms: Option<Vec<u32>>,
+    ext: Option<Vec<[u8; 8]>>,
+    large: Option<Vec<(u32, u32, u32)>>,
+    nexthop: Option<IpAddr>,
+    src: Src,
+}
+
+impl RRoute {
+    fn bare(v6: bool, addr: u128, len: u8) -> RRoute {
+        RRoute {
+            v6,
+            addr,
+            len,
+            origin: Some(0),
+            as_path: Some(vec![(SEG_SEQ, vec![65001])]),
+            med: None,
+            lp: None,
+            comms: None,
+            ext: None,
+            large: None,
+            nexthop: Some(if v6 { "2001:db8::1".parse().unwrap() } else { "192.0.2.1".parse().unwrap() }),
+            src: Src::Ebgp,
+        }
+    }
+    fn v4(a: u8, b: u8, c: u8, d: u8, len: u8) -> RRoute {
+        RRoute::bare(false, (u32::from_be_bytes([a, b, c, d]) as u128) << 96, len)
+    }
+    fn text(&self) -> String {
+        let mut s = format!("{} src={:?}", net_str(self.v6, self.addr, self.len), self.src);
+        if let Some(o) = self.origin {
+            s += &format!(" origin={o}");
+        }
+        match &self.as_path {
+            None => s += " aspath=<no attribute>",
+            Some(p) => s += &format!(" aspath={}", segs_text(p)),
+        }
+        if let Some(v) = self.med {
+            s += &format!(" med={v}");
+        }
+        if let Some(v) = self.lp {
+            s += &format!(" lp={v}");
+        }
+        if let Some(v) = &self.comms {
+            s += &format!(" comm={:?}", v.iter().map(|c| format!("{}:{}", c >> 16, c & 0xffff)).collect::<Vec<_>>());
+        }
+        if let Some(v) = &self.ext {
+            s += &format!(" ext={:?}", v.iter().map(|c| report::hex(c)).collect::<Vec<_>>());
+        }
+        if let Some(v) = &self.large {
+            s += &format!(" large={v:?}");
+        }
+        s += &format!(" nh={:?}", self.nexthop);
+        s
+    }
+}
+
+fn segs_text(p: &Segs) -> String {
+    if p.is_empty() {
+        return "<empty>".into();
+    }
+    p.iter()
+        .map(|(t, m)| {
+            let n = match *t {
+                SEG_SET => "SET",
+                SEG_SEQ => "SEQ",
+                SEG_CSEQ => "CSEQ",
+                SEG_CSET => "CSET",
+                _ => "?",
+            };
+            format!("{n}{m:?}")
+        })
+        .collect::<Vec<_>>()
+        .join(" ")
+}
+
+struct Env {
+    dir: Dir,
+    /// export: address of the peer the route is sent to; import: the source's address
+    peer_addr: IpAddr,
+    local_addr: IpAddr,
+    original_nexthop: Option<IpAddr>,
+    is_confed: bool,
+    rpki: Option<RpkiTable>,
+    /// model of the VRPs in `rpki`: (v6, addr, plen, maxlen, asn)
+    vrps: Vec<(bool, u128, u8, u8, u32)>,
+}
+
+fn src_addr(s: Src) -> IpAddr {
+    match s {
+        Src::Ebgp => "10.0.0.1".parse().unwrap(),
+        Src::Ibgp => "10.0.0.2".parse().unwrap(),
+        Src::Local => "0.0.0.0".parse().unwrap(),
+    }
+}
+const LOCAL_ADDR: &str = "10.0.0.254";
+const LOCAL_ASN: u32 = 65000;
+
+impl Env {
+    fn import(r: &RRoute) -> Env {
+        Env {
+            dir: Dir::Import,
+            peer_addr: src_addr(r.src),
+            local_addr: if r.src == Src::Local { "0.0.0.0".parse().unwrap() } else { LOCAL_ADDR.parse().unwrap() },
+            original_nexthop: r.nexthop,
+            is_confed: false,
+            rpki: None,
+            vrps: vec![],
+        }
+    }
+    fn export(r: &RRoute) -> Env {
+        Env {
+            dir: Dir::Export,
+            peer_addr: "10.0.0.9".parse().unwrap(),
+            local_addr: LOCAL_ADDR.parse().unwrap(),
+            original_nexthop: r.nexthop,
+            is_confed: false,
+            rpki: None,
+            vrps: vec![],
+        }
+    }
+    fn of(dir: Dir, r: &RRoute) -> Env {
+        match dir {
+            Dir::Import => Env::import(r),
+            Dir::Export => Env::export(r),
+        }
+    }
+}
+
+fn source_of(s: Src) -> Arc<Source> {
+    match s {
+        Src::Local => Source::local(),
+        Src::Ebgp => Arc::new(Source::new(src_addr(s), LOCAL_ADDR.parse().unwrap(), 65001, LOCAL_ASN, Ipv4Addr::new(1, 1, 1, 1), PeerRole::Ebgp)),
+        Src::Ibgp => Arc::new(Source::new(src_addr(s), LOCAL_ADDR.parse().unwrap(), LOCAL_ASN, LOCAL_ASN, Ipv4Addr::new(2, 2, 2, 2), PeerRole::Ibgp)),
+    }
+}
+
+fn to_nh(a: IpAddr) -> Nexthop {
+    match a {
+        IpAddr::V4(a) => Nexthop::V4(a),
+        IpAddr::V6(a) => Nexthop::V6(a),
+    }
+}
+
+fn as_path_bytes(segs: &Segs) -> Vec<u8> {
+    let mut b = Vec::new();
+    for (t, m) in segs {
+        b.push(*t);
+        b.push(m.len() as u8);
+        for a in m {
+            b.extend_from_slice(&a.to_be_bytes());
+        }
+    }
+    b
+}
+
+fn to_subject(r: &RRoute) -> (Nlri, Arc<Vec<Attribute>>, Option<Nexthop>, Arc<Source>) {
+    let nlri = if r.v6 {
+        Nlri::V6(Ipv6Net { addr: Ipv6Addr::from(r.addr), mask: r.len })
+    } else {
+        Nlri::V4(Ipv4Net { addr: Ipv4Addr::from((r.addr >> 96) as u32), mask: r.len })
+    };
+    let mut a = Vec::new();
+    if let Some(o) = r.origin {
+        a.push(Attribute::new_with_value(Attribute::ORIGIN, o).unwrap());
+    }
+    if let Some(p) = &r.as_path {
+        a.push(Attribute::new_with_bin(Attribute::AS_PATH, as_path_bytes(p)).unwrap());
+    }
+    if let Some(v) = r.med {
+        a.push(Attribute::new_with_value(Attribute::MULTI_EXIT_DESC, v).unwrap());
+    }
+    if let Some(v) = r.lp {
+        a.push(Attribute::new_with_value(Attribute::LOCAL_PREF, v).unwrap());
+    }
+    if let Some(v) = &r.comms {
+        let mut b = Vec::new();
+        for c in v {
+            b.extend_from_slice(&c.to_be_bytes());
+        }
+        a.push(Attribute::new_with_bin(Attribute::COMMUNITY, b).unwrap());
+    }
+    if let Some(v) = &r.ext {
+        let mut b = Vec::new();
+        for c in v {
+            b.extend_from_slice(c);
+        }
+        a.push(Attribute::new_with_bin(Attribute::EXTENDED_COMMUNITY, b).unwrap());
+    }
+    if let Some(v) = &r.large {
+        let mut b = Vec::new();
+        for (x, y, z) in v {
+            b.extend_from_slice(&x.to_be_bytes());
+            b.extend_from_slice(&y.to_be_bytes());
+            b.extend_from_slice(&z.to_be_bytes());
+        }
+        a.push(Attribute::new_with_bin(Attribute::LARGE_COMMUNITY, b).unwrap());
+    }
+    (nlri, Arc::new(a), r.nexthop.map(to_nh), source_of(r.src))
+}
+
+/// Canonical attribute vector: code -> payload; attribute order is not significant;
+/// community lists are compared as sets (the statement does not say whether an
+/// "add" de-duplicates); an empty community-type list equals an absent attribute.
+type Canon = BTreeMap<u8, Vec<u8>>;
+
+fn canon_sorted_chunks(b: &[u8], n: usize) -> Vec<u8> {
+    let mut v: Vec<&[u8]> = b.chunks(n).collect();
+    v.sort();
+    v.dedup();
+    v.concat()
+}
+
+fn canon_attrs(attrs: &[Attribute]) -> Canon {
+    let mut m = Canon::new();
+    for a in attrs {
+        let mut payload = match (a.value(), a.binary()) {
+            (Some(v), _) => v.to_be_bytes().to_vec(),
+            (None, Some(b)) => b.clone(),
+            _ => vec![],
+        };
+        let width = match a.code() {
+            Attribute::COMMUNITY => 4,
+            Attribute::EXTENDED_COMMUNITY => 8,
+            Attribute::LARGE_COMMUNITY => 12,
+            _ => 0,
+        };
+        if width > 0 {
+            if payload.is_empty() {
+                continue;
+            }
+            payload = canon_sorted_chunks(&payload, width);
+        }
+        // a duplicated attribute code would be a subject bug: keep both visible
+        let mut code = a.code();
+        while m.contains_key(&code) {
+            code = code.wrapping_add(100);
+        }
+        m.insert(code, payload);
+    }
+    m
+}
+
+fn canon_route(r: &RRoute) -> Canon {
+    let (_, attrs, _, _) = to_subject(r);
+    canon_attrs(&attrs)
+}
+
+#[derive(Clone, Debug, PartialEq, Eq, PartialOrd, Ord, Hash)]
+struct Outcome {
+    disp: Disp,
+    attrs: Canon,
+    nh: Option<IpAddr>,
+}
+impl Outcome {
+    fn new(disp: Disp, attrs: Canon, nh: Option<IpAddr>) -> Outcome {
+        if disp == Disp::Reject {
+            // a rejected route is dropped: its attributes are not observable
+            Outcome { disp, attrs: Canon::new(), nh: None }
+        } else {
+            Outcome { disp, attrs, nh }
+        }
+    }
+    fn text(&self) -> String {
+        if self.disp == Disp::Reject {
+            return "Reject".into();
+        }
+        let a: Vec<String> = self.attrs.iter().map(|(c, p)| format!("{c}={}", report::hex(p))).collect();
+        format!("{:?} attrs{{{}}} nh={:?}", self.disp, a.join(" "), self.nh)
+    }
+}
+
+// ---------------------------------------------------------------------------
+// Installation through the public API (the order the daemon's gRPC handlers use:
+// defined sets, then statements, then policies, then the assignment).
+// ---------------------------------------------------------------------------
+
+struct Installed {
+    pt: PolicyTable,
+    asg: Arc<PolicyAssignment>,
+}
+
+struct Builder {
+    pt: PolicyTable,
+    n: usize,
+}
+
+fn err_str(e: TableError) -> String {
+    format!("{e:?}")
+}
+
+impl Builder {
+    fn new() -> Builder {
+        Builder { pt: PolicyTable::new(), n: 0 }
+    }
+    fn fresh(&mut self, p: &str) -> String {
+        self.n += 1;
+        format!("{p}{}", self.n)
+    }
+    fn cond(&mut self, c: &RCond) -> Result<ConditionConfig, String> {
+        Ok(match c {
+            RCond::Prefix(es, opt) => {
+                let name = self.fresh("ps");
+                let prefixes = es
+                    .iter()
+                    .map(|e| PrefixConfig { ip_prefix: net_str(e.v6, e.addr, e.plen), mask_length_min: e.min, mask_length_max: e.max })
+                    .collect();
+                self.pt.add_defined_set(DefinedSetConfig::Prefix { name: name.clone(), prefixes }).map_err(err_str)?;
+                ConditionConfig::PrefixSet(name, opt.cfg())
+            }
+            RCond::Neighbor(ns, opt) => {
+                let name = self.fresh("ns");
+                let neighbors = ns.iter().map(|(a, l)| format!("{a}/{l}")).collect();
+                self.pt.add_defined_set(DefinedSetConfig::Neighbor { name: name.clone(), neighbors }).map_err(err_str)?;
+                ConditionConfig::NeighborSet(name, opt.cfg())
+            }
+            RCond::AsPath(ps, opt) => {
+                let name = self.fresh("as");
+                let patterns = ps.iter().map(|p| p.text()).collect();
+                self.pt.add_defined_set(DefinedSetConfig::AsPath { name: name.clone(), patterns }).map_err(err_str)?;
+                ConditionConfig::AsPathSet(name, opt.cfg())
+            }
+            RCond::Comm(ps, opt) => {
+                let name = self.fresh("cs");
+                let patterns = ps.iter().map(|p| p.text()).collect();
+                self.pt.add_defined_set(DefinedSetConfig::Community { name: name.clone(), patterns }).map_err(err_str)?;
+                ConditionConfig::CommunitySet(name, opt.cfg())
+            }
+            RCond::Ext(ps, opt) => {
+                let name = self.fresh("es");
+                let patterns = ps.iter().map(|p| p.text()).collect();
+                self.pt.add_defined_set(DefinedSetConfig::ExtCommunity { name: name.clone(), patterns }).map_err(err_str)?;
+                ConditionConfig::ExtCommunitySet(name, opt.cfg())
+            }
+            RCond::Large(ps, opt) => {
+                let name = self.fresh("ls");
+                let patterns = ps.iter().map(|p| p.text()).collect();
+                self.pt.add_defined_set(DefinedSetConfig::LargeCommunity { name: name.clone(), patterns }).map_err(err_str)?;
+                ConditionConfig::LargeCommunitySet(name, opt.cfg())
+            }
+            RCond::AsPathLen(c, v) => ConditionConfig::AsPathLength(c.cfg(), *v),
+            RCond::Nexthop(v) => ConditionConfig::Nexthop(v.clone()),
+            RCond::Rpki(s) => ConditionConfig::Rpki(match s {
+                Rov::NotFound => RpkiValidationState::NotFound,
+                Rov::Valid => RpkiValidationState::Valid,
+                Rov::Invalid => RpkiValidationState::Invalid,
+            }),
+            RCond::LocalPrefEq(v) => ConditionConfig::LocalPrefEq(*v),
+            RCond::MedEq(v) => ConditionConfig::MedEq(*v),
+            RCond::Origin(v) => ConditionConfig::Origin(*v),
+            RCond::RouteType(t) => ConditionConfig::RouteType(match t {
+                RT::Internal => RouteType::Internal,
+                RT::External => RouteType::External,
+                RT::Local => RouteType::Local,
+            }),
+            RCond::CommCount(c, v) => ConditionConfig::CommunityCount(c.cfg(), *v),
+            RCond::AfiSafiIn(f) => ConditionConfig::AfiSafiIn(f.iter().map(|&v6| if v6 { Family::IPV6 } else { Family::IPV4 }).collect()),
+        })
+    }
+    fn actions(acts: &[RAct]) -> Actions {
+        let mut a = Actions::default();
+        for x in acts {
+            match x {
+                RAct::SetLp(v) => a.local_pref = Some(LocalPrefAction { value: *v }),
+                RAct::CommAdd(v) => a.community = Some(CommunityAction { action_type: CommunityActionType::Add, communities: v.clone() }),
+                RAct::CommRemove(v) => a.community = Some(CommunityAction { action_type: CommunityActionType::Remove, communities: v.clone() }),
+                RAct::CommReplace(v) => a.community = Some(CommunityAction { action_type: CommunityActionType::Replace, communities: v.clone() }),
+                RAct::MedMod(v) => a.med = Some(MedAction { action_type: MedActionType::Mod, value: *v }),
+                RAct::MedSet(v) => a.med = Some(MedAction { action_type: MedActionType::Replace, value: *v }),
+                RAct::NhAddr(ip) => a.nexthop = Some(NexthopAction::Address(*ip)),
+                RAct::NhSelf => a.nexthop = Some(NexthopAction::PeerSelf),
+                RAct::NhPeer => a.nexthop = Some(NexthopAction::PeerAddress),
+                RAct::NhUnchanged => a.nexthop = Some(NexthopAction::Unchanged),
+                RAct::Origin(v) => a.origin = Some(OriginAction { origin: *v }),
+            }
+        }
+        a
+    }
+    fn stmt(&mut self, s: &RStmt) -> Result<String, String> {
+        let mut cfgs = Vec::new();
+        for c in &s.conds {
+            cfgs.push(self.cond(c)?);
+        }
+        let name = self.fresh("st");
+        self.pt
+            .add_statement(&name, cfgs, s.disp.map(|d| d.cfg()), Builder::actions(&s.acts))
+            .map_err(err_str)?;
+        Ok(name)
+    }
+    fn policy(&mut self, p: &RPolicy) -> Result<String, String> {
+        let mut names = Vec::new();
+        for s in &p.stmts {
+            names.push(self.stmt(s)?);
+        }
+        let name = self.fresh("pol");
+        self.pt.add_policy(&name, names).map_err(err_str)?;
+        Ok(name)
+    }
+    fn install(mut self, a: &RAssign, dir: Dir) -> Result<Installed, String> {
+        let mut names = Vec::new();
+        for p in &a.policies {
+            names.push(self.policy(p)?);
+        }
+        let d = match dir {
+            Dir::Import => PolicyDirection::Import,
+            Dir::Export => PolicyDirection::Export,
+        };
+        // AddPolicyAssignment on an empty slot, as the daemon does for "global"
+        let (_, asg) = self.pt.add_assignment("global", d, a.default.cfg(), names).map_err(err_str)?;
+        Ok(Installed { pt: self.pt, asg })
+    }
+}
+
+fn install(a: &RAssign, dir: Dir) -> Result<Installed, String> {
+    match report::catch(|| Builder::new().install(a, dir)) {
+        Ok(r) => r,
+        Err(p) => Err(format!("PANIC while building: {p}")),
+    }
+}
+
+/// Evaluate the real engine.  Err = the subject panicked.
+fn eval_subject(asg: &PolicyAssignment, r: &RRoute, env: &Env) -> Result<Outcome, String> {
+    let (nlri, attrs, nh, src) = to_subject(r);
+    report::catch(|| match env.dir {
+        Dir::Import => {
+            let mut nh = nh;
+            let (filtered, out) = rustybgp_table::apply_import(asg, env.rpki.as_ref(), &src, &nlri, &attrs, &mut nh);
+            Outcome::new(if filtered { Disp::Reject } else { Disp::Accept }, canon_attrs(&out), nh.map(|n| n.addr()))
+        }
+        Dir::Export => {
+            let mut a = attrs;
+            let mut nh = nh;
+            let d = rustybgp_table::apply_export(
+                asg,
+                env.rpki.as_ref(),
+                &src,
+                &nlri,
+                &mut a,
+                &mut nh,
+                env.original_nexthop.map(to_nh),
+                env.is_confed,
+                env.local_addr,
+                env.peer_addr,
+            );
+            Outcome::new(Disp::of(d), canon_attrs(&a), nh.map(|n| n.addr()))
+        }
+    })
+}
+
+// ---------------------------------------------------------------------------
+// Reference interpreter (from the property statement).
+// ---------------------------------------------------------------------------
+
+fn tf(b: bool) -> BTreeSet<bool> {
+    let mut s = BTreeSet::new();
+    s.insert(b);
+    s
+}
+fn either() -> BTreeSet<bool> {
+    let mut s = BTreeSet::new();
+    s.insert(true);
+    s.insert(false);
+    s
+}
+
+fn ip_in_net(addr: &IpAddr, net: &IpAddr, len: u8) -> bool {
+    match (addr, net) {
+        (IpAddr::V4(a), IpAddr::V4(n)) => {
+            let (a, n) = (u32::from(*a), u32::from(*n));
+            len == 0 || (a ^ n) >> (32 - len as u32) == 0
+        }
+        (IpAddr::V6(a), IpAddr::V6(n)) => {
+            let (a, n) = (u128::from(*a), u128::from(*n));
+            len == 0 || (a ^ n) >> (128 - len as u32) == 0
+        }
+        _ => false,
+    }
+}
+
+/// RFC 4271 9.1.2.2 (a): AS_SET counts 1, AS_SEQUENCE its members, confederation segments 0.
+fn as_path_len(p: &Segs) -> u64 {
+    p.iter()
+        .map(|(t, m)| match *t {
+            SEG_SEQ => m.len() as u64,
+            SEG_SET => 1,
+            _ => 0,
+        })
+        .sum()
+}
+
+/// Acceptable verdicts of one condition.
+fn ref_cond(c: &RCond, r: &RRoute, env: &Env) -> BTreeSet<bool> {
+    match c {
+        RCond::Prefix(es, opt) => {
+            let hit = es.iter().any(|e| e.matches(r.v6, r.addr, r.len));
+            tf(if *opt == Opt::Invert { !hit } else { hit })
+        }
+        RCond::Neighbor(ns, opt) => {
+            let hit = ns.iter().any(|(n, l)| ip_in_net(&env.peer_addr, n, *l));
+            tf(if *opt == Opt::Invert { !hit } else { hit })
+        }
+        RCond::AsPath(ps, opt) => as_set_readings(ps, *opt, r.as_path.as_ref()),
+        RCond::Comm(ps, opt) => {
+            let cs = r.comms.clone().unwrap_or_default();
+            let v: Vec<bool> = ps.iter().map(|p| cs.iter().any(|c| p.matches(*c))).collect();
+            tf(opt.combine(&v))
+        }
+        RCond::Ext(ps, opt) => {
+            let cs = r.ext.clone().unwrap_or_default();
+            let v: Vec<bool> = ps.iter().map(|p| cs.iter().any(|c| p.matches(c))).collect();
+            tf(opt.combine(&v))
+        }
+        RCond::Large(ps, opt) => {
+            let cs = r.large.clone().unwrap_or_default();
+            let v: Vec<bool> = ps.iter().map(|p| cs.iter().any(|c| p.matches(c))).collect();
+            tf(opt.combine(&v))
+        }
+        RCond::AsPathLen(cmp, v) => match &r.as_path {
+            // no AS_PATH attribute: "length 0" (GoBGP) and "condition not applicable" are both accepted
+            None => {
+                let mut s = tf(cmp.holds(0, *v as u64));
+                s.insert(false);
+                s
+            }
+            Some(p) => tf(cmp.holds(as_path_len(p), *v as u64)),
+        },
+        RCond::Nexthop(list) => tf(r.nexthop.is_some_and(|n| list.contains(&n))),
+        RCond::Rpki(want) => {
+            if env.vrps.is_empty() {
+                // no VRP at all: NotFound (RFC 6811) or "validation not performed" are both accepted
+                let mut s = tf(*want == Rov::NotFound);
+                s.insert(false);
+                return s;
+            }
+            // RFC 6811 with origin AS = last AS of the final AS_SEQUENCE segment
+            let origin = r.as_path.as_ref().and_then(|p| p.last()).and_then(|(t, m)| if *t == SEG_SEQ { m.last().copied() } else { None });
+            let mut covered = false;
+            let mut valid = false;
+            for (v6, addr, plen, maxlen, asn) in &env.vrps {
+                let e = PEntry { v6: *v6, addr: *addr, plen: *plen, min: 0, max: 0 };
+                if e.covers(r.v6, r.addr, r.len) {
+                    covered = true;
+                    if r.len <= *maxlen && *asn != 0 && Some(*asn) == origin {
+                        valid = true;
+                    }
+                }
+            }
+            let st = if valid { Rov::Valid } else if covered { Rov::Invalid } else { Rov::NotFound };
+            tf(st == *want)
+        }
+        RCond::LocalPrefEq(v) => tf(r.lp == Some(*v)),
+        RCond::MedEq(v) => tf(r.med == Some(*v)),
+        RCond::Origin(v) => tf(r.origin == Some(*v as u32)),
+        RCond::RouteType(t) => tf(match t {
+            RT::Local => r.src == Src::Local,
+            RT::Internal => r.src == Src::Ibgp,
+            RT::External => r.src == Src::Ebgp,
+        }),
+        RCond::CommCount(cmp, v) => tf(cmp.holds(r.comms.as_ref().map(|c| c.len()).unwrap_or(0) as u64, *v as u64)),
+        RCond::AfiSafiIn(f) => tf(f.contains(&r.v6)),
+    }
+}
+
+/// One action; several results where the statement leaves the result open.
+fn ref_action(a: &RAct, r: &RRoute, env: &Env) -> Vec<RRoute> {
+    let mut n = r.clone();
+    match a {
+        RAct::SetLp(v) => n.lp = Some(*v),
+        RAct::CommAdd(v) => {
+            let mut c = n.comms.take().unwrap_or_default();
+            c.extend_from_slice(v);
+            n.comms = Some(c);
+        }
+        RAct::CommRemove(v) => {
+            let c: Vec<u32> = n.comms.take().unwrap_or_default().into_iter().filter(|x| !v.contains(x)).collect();
+            n.comms = Some(c);
+        }
+        RAct::CommReplace(v) => n.comms = Some(v.clone()),
+        RAct::MedSet(v) => n.med = Some((*v).clamp(0, u32::MAX as i64) as u32),
+        RAct::MedMod(d) => {
+            let cur = n.med.unwrap_or(0) as i64;
+            let t = cur + d;
+            if t < 0 || t > u32::MAX as i64 {
+                // out of range: clamping (rustybgp) and leaving the MED alone (GoBGP) are both accepted
+                let mut clamped = n.clone();
+                clamped.med = Some(t.clamp(0, u32::MAX as i64) as u32);
+                return vec![clamped, n];
+            }
+            n.med = Some(t as u32);
+        }
+        RAct::NhAddr(ip) => n.nexthop = Some(*ip),
+        RAct::NhSelf => n.nexthop = Some(env.local_addr),
+        RAct::NhPeer => n.nexthop = Some(env.peer_addr),
+        RAct::NhUnchanged => {
+            if let Some(o) = env.original_nexthop {
+                n.nexthop = Some(o);
+            }
+        }
+        RAct::Origin(v) => n.origin = Some(*v as u32),
+    }
+    vec![n]
+}
+
+/// All outcomes the statement allows.  Statements in order; a statement applies when
+/// all its conditions hold; the first non-pass disposition wins; actions of applied
+/// statements accumulate; fall-through gives the default.  Conditions of later
+/// statements may see the accumulated or the original attributes (both accepted).
+fn ref_eval(a: &RAssign, r0: &RRoute, env: &Env) -> Vec<Outcome> {
+    let mut alts: Vec<RRoute> = vec![r0.clone()];
+    let mut done: BTreeSet<Outcome> = BTreeSet::new();
+    for p in &a.policies {
+        for s in &p.stmts {
+            let mut next: Vec<RRoute> = Vec::new();
+            for cur in &alts {
+                let mut can_true = true;
+                let mut can_false = false;
+                for c in &s.conds {
+                    let mut v = ref_cond(c, cur, env);
+                    v.extend(ref_cond(c, r0, env));
+                    if !v.contains(&true) {
+                        can_true = false;
+                    }
+                    if v.contains(&false) {
+                        can_false = true;
+                    }
+                }
+                if can_false {
+                    next.push(cur.clone());
+                }
+                if can_true {
+                    let mut rs = vec![cur.clone()];
+                    for act in &s.acts {
+                        rs = rs.iter().flat_map(|x| ref_action(act, x, env)).collect();
+                    }
+                    for m in rs {
+                        match s.disp {
+                            None | Some(Disp::Pass) => next.push(m),
+                            Some(d) => {
+                                done.insert(Outcome::new(d, canon_route(&m), m.nexthop));
+                            }
+                        }
+                    }
+                }
+            }
+            alts = next;
+            if alts.len() > 64 {
+                alts.truncate(64); // never reached in the enumerated universes (asserted by callers' counts)
+            }
+        }
+    }
+    for cur in alts {
+        done.insert(Outcome::new(a.default, canon_route(&cur), cur.nexthop));
+    }
+    done.into_iter().collect()
+}
+
+fn hash64(b: &[u8]) -> u64 {
+    (bfs::hash128(b) >> 64) as u64
+}
+
+/// A shared set of behaviour-vector hashes (distinct-behaviour measurement).
+struct Distinct(Mutex<HashSet<u64>>);
+impl Distinct {
+    fn new() -> Distinct {
+        Distinct(Mutex::new(HashSet::new()))
+    }
+    fn add(&self, h: u64) {
+        self.0.lock().unwrap().insert(h);
+    }
+    fn len(&self) -> u64 {
+        self.0.lock().unwrap().len() as u64
+    }
+}
+
+fn outcome_code(o: &Result<Outcome, String>) -> Vec<u8> {
+    match o {
+        Ok(o) => o.text().into_bytes(),
+        Err(_) => b"PANIC".to_vec(),
+    }
+}
+
+fn panic_site(msg: &str) -> String {
+    bfs::panic_loc(msg)
+}
+
+type V3 = (String, String, String); // (sig, what, case)
+
+// ===========================================================================
+// A1: prefix sets
+// ===========================================================================
+
+struct A1Space {
+    v6: bool,
+    w: u8,
+    entries: Vec<PEntry>,
+    routes: Vec<RRoute>,
+    /// set index -> entry indices
+    sets: Vec<(u32, u32)>, // (i, j) with j == u32::MAX for a single-entry set
+}
+
+fn a1_space(v6: bool, w: u8) -> A1Space {
+    // embedded w-bit space below a base prefix that straddles a byte/group boundary
+    let (base, b, maxlen): (u128, u8, u8) = if v6 {
+        (0x2001_0db8u128 << 96, 31, 128)
+    } else {
+        (0x0a00_0000u128 << 96, 7, 32)
+    };
+    let mut nodes: Vec<(u128, u8)> = Vec::new();
+    for l in 0..=w {
+        for i in 0..(1u128 << l) {
+            let len = b + l;
+            nodes.push((base | (i << (128 - len as u32)), len));
+        }
+    }
+    let mut lens: Vec<u8> = vec![0];
+    for l in 0..=w + 1 {
+        lens.push(b + l);
+    }
+    lens.push(maxlen);
+    let mut ranges: Vec<(u8, u8)> = Vec::new();
+    for (i, &lo) in lens.iter().enumerate() {
+        for &hi in &lens[i..] {
+            ranges.push((lo, hi));
+        }
+    }
+    ranges.push((b + 2, b + 1)); // inverted range: can never match
+    let mut prefixes = nodes.clone();
+    prefixes.push((0, 0)); // zero-length prefix
+    let mut entries = Vec::new();
+    for (addr, plen) in &prefixes {
+        for (min, max) in &ranges {
+            entries.push(PEntry { v6, addr: *addr, plen: *plen, min: *min, max: *max });
+        }
+    }
+    let mut routes: Vec<RRoute> = nodes.iter().map(|(a, l)| RRoute::bare(v6, *a, *l)).collect();
+    routes.push(RRoute::bare(v6, 0, 0)); // default route
+    routes.push(RRoute::bare(v6, base ^ (1u128 << (128 - b as u32)), b)); // sibling of the base
+    let deep = b + w + 1;
+    routes.push(RRoute::bare(v6, base, deep)); // longer than every entry
+    routes.push(RRoute::bare(v6, base | (1u128 << (128 - deep as u32)), deep));
+    // what the wire decoder can produce: host bits beyond the mask are not cleared
+    routes.push(RRoute::bare(v6, base | (1u128 << (128 - (b + w) as u32)), b + 1));
+    // a route of the other family
+    routes.push(if v6 { RRoute::v4(10, 0, 0, 0, 8) } else { RRoute::bare(true, 0x2001_0db8u128 << 96, 32) });
+    let n = entries.len() as u32;
+    let mut sets = Vec::new();
+    for i in 0..n {
+        sets.push((i, u32::MAX));
+    }
+    for i in 0..n {
+        for j in i + 1..n {
+            sets.push((i, j));
+        }
+    }
+    A1Space { v6, w, entries, routes, sets }
+}
+
+impl A1Space {
+    fn set(&self, s: usize) -> Vec<PEntry> {
+        let (i, j) = self.sets[s];
+        let mut v = vec![self.entries[i as usize].clone()];
+        if j != u32::MAX {
+            v.push(self.entries[j as usize].clone());
+        }
+        v
+    }
+    fn name(&self) -> &'static str {
+        if self.v6 { "a1v6" } else { "a1v4" }
+    }
+    fn dir(&self) -> Dir {
+        if self.v6 { Dir::Export } else { Dir::Import }
+    }
+}
+
+fn a1_shape(es: &[PEntry], r: &RRoute, hit_expected: bool) -> &'static str {
+    if !hit_expected {
+        // subject matched although no entry covers+contains the route
+        if es.iter().any(|e| e.v6 == r.v6 && e.plen > r.len) {
+            "false-match/entry-longer-than-route"
+        } else {
+            "false-match/other"
+        }
+    } else {
+        let good: Vec<&PEntry> = es.iter().filter(|e| e.matches(r.v6, r.addr, r.len)).collect();
+        let shadowed = good.iter().all(|g| {
+            es.iter().any(|o| o.v6 == g.v6 && o.plen > g.plen && !o.matches(r.v6, r.addr, r.len))
+        });
+        let same = good.iter().all(|g| es.iter().any(|o| !std::ptr::eq(*g, o) && o.v6 == g.v6 && o.plen == g.plen && o.addr == g.addr));
+        if same {
+            "missed-match/two-entries-same-prefix"
+        } else if shadowed {
+            "missed-match/shadowed-by-more-specific-entry"
+        } else {
+            "missed-match/other"
+        }
+    }
+}
+
+/// Evaluate every (option, route) of one set; `only` restricts to one (opt, route).
+fn a1_eval_set(sp: &A1Space, s: usize, only: Option<(usize, usize)>, verbose: bool, dist: Option<&Distinct>) -> (u64, Vec<V3>) {
+    let es = sp.set(s);
+    let mut out = Vec::new();
+    let mut n = 0u64;
+    for (oi, opt) in [Opt::Any, Opt::Invert].into_iter().enumerate() {
+        if only.is_some_and(|(o, _)| o != oi) {
+            continue;
+        }
+        let prog = one_cond(RCond::Prefix(es.clone(), opt), Disp::Reject);
+        let inst = match install(&prog, sp.dir()) {
+            Ok(i) => i,
+            Err(e) => {
+                out.push((
+                    format!("C14/build/prefix-set-rejected"),
+                    format!("a well-formed prefix set was not accepted by the API: {e}"),
+                    format!("{}#{},{},{},0#set={:?}", sp.name(), sp.w, s, oi, es.iter().map(|e| e.text()).collect::<Vec<_>>()),
+                ));
+                continue;
+            }
+        };
+        let mut behaviour = Vec::new();
+        for (ri, r) in sp.routes.iter().enumerate() {
+            if only.is_some_and(|(_, x)| x != ri) {
+                continue;
+            }
+            n += 1;
+            let env = Env::of(sp.dir(), r);
+            let hit = es.iter().any(|e| e.matches(r.v6, r.addr, r.len));
+            let cond = if opt == Opt::Invert { !hit } else { hit };
+            let expected = Outcome::new(if cond { Disp::Accept } else { Disp::Reject }, canon_route(r), r.nexthop);
+            let got = eval_subject(&inst.asg, r, &env);
+            behaviour.extend(outcome_code(&got));
+            behaviour.push(b'|');
+            let render = || {
+                format!(
+                    "{}#{},{},{},{}#prefix-set {{{}}} {:?} x route {}",
+                    sp.name(),
+                    sp.w,
+                    s,
+                    oi,
+                    ri,
+                    es.iter().map(|e| e.text()).collect::<Vec<_>>().join(", "),
+                    opt,
+                    net_str(r.v6, r.addr, r.len)
+                )
+            };
+            if verbose {
+                eprintln!("  {}\n    expected {}\n    observed {:?}", render(), expected.text(), got.as_ref().map(|o| o.text()));
+            }
+            match got {
+                Err(p) => out.push((format!("C14/no-panic/prefix-set/{}", panic_site(&p)), format!("policy evaluation panicked: {p}"), render())),
+                Ok(g) if g != expected => {
+                    let shape = a1_shape(&es, r, hit);
+                    out.push((
+                        format!("C14/eval/prefix-set/{shape}"),
+                        format!(
+                            "prefix condition ({opt:?}): the statement gives {} (an entry covers the route and contains its length: {hit}), the engine gave {}",
+                            expected.text(),
+                            g.text()
+                        ),
+                        render(),
+                    ));
+                }
+                Ok(_) => {}
+            }
+        }
+        if let Some(d) = dist {
+            d.add(hash64(&behaviour));
+        }
+    }
+    (n, out)
+}
+
+fn a1_run(rep: &mut Report, thorough: bool, v6: bool) -> u64 {
+    let w = if thorough && !v6 { 4 } else { 3 };
+    let sp = a1_space(v6, w);
+    let dist = Distinct::new();
+    rep.notes.push(format!(
+        "{}: embedded {}-bit space below {}, {} entries (prefix x [min,max]), {} sets of <=2 entries x {{ANY,INVERT}} x {} routes",
+        sp.name(),
+        w,
+        if v6 { "2001:db8::/31" } else { "10.0.0.0/7" },
+        sp.entries.len(),
+        sp.sets.len(),
+        sp.routes.len()
+    ));
+    enumr::par_range(sp.sets.len() as u64, rep, |i, local| {
+        let (n, vs) = a1_eval_set(&sp, i as usize, None, false, Some(&dist));
+        local.evaluations += n;
+        for (sig, what, case) in vs {
+            local.violation(Violation { sig, what, case });
+        }
+        if i % 20011 == 0 {
+            local.samples.push(format!("{} set#{i} {{{}}}", sp.name(), sp.set(i as usize).iter().map(|e| e.text()).collect::<Vec<_>>().join(", ")));
+        }
+    });
+    dist.len()
+}
+
+fn a1_replay(idx: &[u64], v6: bool) -> Vec<V3> {
+    if idx.len() < 4 {
+        return vec![];
+    }
+    let sp = a1_space(v6, idx[0] as u8);
+    if idx[1] as usize >= sp.sets.len() {
+        return vec![];
+    }
+    a1_eval_set(&sp, idx[1] as usize, Some((idx[2] as usize, idx[3] as usize)), true, None).1
+}
+
+// ===========================================================================
+// A2: AS-path sets
+// ===========================================================================
+
+struct A2Space {
+    nseg: usize,
+    pats: Vec<AsPat>,
+    sets: Vec<Vec<usize>>,
+    paths: Vec<Option<Segs>>,
+}
+
+fn a2_space(nseg: usize) -> A2Space {
+    let mut pats = Vec::new();
+    let forms = [AsForm::Include, AsForm::LeftMost, AsForm::Origin, AsForm::Only];
+    for f in forms {
+        for n in [1u32, 2] {
+            pats.push(AsPat::Single { form: f, lo: n, hi: n });
+        }
+    }
+    for f in forms {
+        for (lo, hi) in [(1u32, 2u32), (2, 3)] {
+            pats.push(AsPat::Single { form: f, lo, hi });
+        }
+    }
+    let regex = pats.len();
+    pats.push(AsPat::Regex12);
+    let mut sets: Vec<Vec<usize>> = (0..pats.len()).map(|i| vec![i]).collect();
+    for i in 0..8 {
+        for j in i + 1..8 {
+            sets.push(vec![i, j]);
+        }
+    }
+    sets.push(vec![regex, 5]); // "^1_2$" together with "_2$"
+    // segments: every type x member lists of length 0..=2 over {1,2,3}
+    let mut members: Vec<Vec<u32>> = vec![vec![]];
+    for a in 1..=3u32 {
+        members.push(vec![a]);
+    }
+    for a in 1..=3u32 {
+        for b in 1..=3u32 {
+            members.push(vec![a, b]);
+        }
+    }
+    let mut segs: Vec<(u8, Vec<u32>)> = Vec::new();
+    for t in [SEG_SET, SEG_SEQ, SEG_CSEQ, SEG_CSET] {
+        for m in &members {
+            segs.push((t, m.clone()));
+        }
+    }
+    let mut paths: Vec<Option<Segs>> = vec![None, Some(vec![])];
+    let mut level: Vec<Segs> = vec![vec![]];
+    for _ in 0..nseg {
+        let mut next = Vec::new();
+        for p in &level {
+            for s in &segs {
+                let mut q = p.clone();
+                q.push(s.clone());
+                next.push(q);
+            }
+        }
+        for p in &next {
+            paths.push(Some(p.clone()));
+        }
+        level = next;
+    }
+    A2Space { nseg, pats, sets, paths }
+}
+
+fn path_class(p: &Option<Segs>) -> &'static str {
+    match p {
+        None => "no-aspath-attribute",
+        Some(s) if s.is_empty() => "zero-segments",
+        Some(s) => {
+            if s.last().unwrap().1.is_empty() {
+                "empty-last-segment"
+            } else if s[0].1.is_empty() {
+                "empty-first-segment"
+            } else if s.iter().any(|(_, m)| m.is_empty()) {
+                "empty-middle-segment"
+            } else if s.iter().all(|(t, _)| *t == SEG_SEQ) {
+                "seq-only"
+            } else {
+                "has-set-or-confed-segment"
+            }
+        }
+    }
+}
+
+fn a2_route(p: &Option<Segs>) -> RRoute {
+    let mut r = RRoute::v4(10, 0, 0, 0, 8);
+    r.as_path = p.clone();
+    r
+}
+
+/// Subject verdict of one (set, opt) on one path: Ok(condition held) / Err(panic).
+fn a2_subject(inst: &Installed, p: &Option<Segs>) -> Result<bool, String> {
+    let r = a2_route(p);
+    eval_subject(&inst.asg, &r, &Env::import(&r)).map(|o| o.disp == Disp::Accept)
+}
+
+/// bad[p][path]: the single-pattern ANY set already misbehaves on that path.
+fn a2_single_matrix(sp: &A2Space) -> Vec<Vec<bool>> {
+    let mut bad = Vec::new();
+    for p in &sp.pats {
+        let inst = install(&one_cond(RCond::AsPath(vec![p.clone()], Opt::Any), Disp::Reject), Dir::Import);
+        let row: Vec<bool> = sp
+            .paths
+            .iter()
+            .map(|path| match &inst {
+                Err(_) => true,
+                Ok(i) => match a2_subject(i, path) {
+                    Err(_) => true,
+                    Ok(v) => !as_pat_readings(p, path.as_ref()).contains(&v),
+                },
+            })
+            .collect();
+        bad.push(row);
+    }
+    bad
+}
+
+fn a2_eval(sp: &A2Space, bad: &[Vec<bool>], si: usize, oi: usize, only_path: Option<usize>, verbose: bool, dist: Option<&Distinct>) -> (u64, Vec<V3>) {
+    let pats: Vec<AsPat> = sp.sets[si].iter().map(|&i| sp.pats[i].clone()).collect();
+    let opt = OPTS[oi];
+    let mut out = Vec::new();
+    let texts: Vec<String> = pats.iter().map(|p| p.text()).collect();
+    let inst = match install(&one_cond(RCond::AsPath(pats.clone(), opt), Disp::Reject), Dir::Import) {
+        Ok(i) => i,
+        Err(e) => {
+            out.push((
+                "C14/build/aspath-set-rejected".to_string(),
+                format!("as-path set {texts:?} {opt:?} was not accepted by the API: {e}"),
+                format!("a2#{},{},{},0#build", sp.nseg, si, oi),
+            ));
+            return (0, out);
+        }
+    };
+    let mut n = 0;
+    let mut behaviour = Vec::new();
+    for (pi, path) in sp.paths.iter().enumerate() {
+        if only_path.is_some_and(|x| x != pi) {
+            continue;
+        }
+        n += 1;
+        let acceptable = as_set_readings(&pats, opt, path.as_ref());
+        let got = a2_subject(&inst, path);
+        behaviour.push(match &got {
+            Ok(true) => b'1',
+            Ok(false) => b'0',
+            Err(_) => b'P',
+        });
+        let render = || {
+            format!(
+                "a2#{},{},{},{}#as-path-set {:?} {:?} x AS_PATH {}",
+                sp.nseg,
+                si,
+                oi,
+                pi,
+                texts,
+                opt,
+                path.as_ref().map(segs_text).unwrap_or("<no attribute>".into())
+            )
+        };
+        if verbose {
+            eprintln!("  {}\n    acceptable verdicts {:?}\n    observed {:?}", render(), acceptable, got);
+        }
+        // root cause only: a member pattern that is already wrong alone on this path is
+        // reported by its single-pattern ANY case
+        let member_bad = sp.sets[si].iter().any(|&i| bad[i][pi]);
+        let is_single_any = pats.len() == 1 && opt == Opt::Any;
+        if member_bad && !is_single_any && !verbose {
+            continue;
+        }
+        let class = if pats.len() == 1 { pats[0].class().to_string() } else { "combination".to_string() };
+        match got {
+            Err(p) => out.push((
+                format!("C14/no-panic/aspath-set/{}/{}", class, path_class(path)),
+                format!("policy evaluation panicked on an AS_PATH the wire decoder accepts: {p}"),
+                render(),
+            )),
+            Ok(v) if !acceptable.contains(&v) => {
+                let sig = if opt == Opt::All {
+                    "C14/eval/aspath-set/opt=ALL".to_string()
+                } else {
+                    format!("C14/eval/aspath-set/{}/{}", class, path_class(path))
+                };
+                out.push((
+                    sig,
+                    format!("as-path condition {texts:?} {opt:?}: every accepted reading gives {acceptable:?}, the engine gave {v}"),
+                    render(),
+                ));
+            }
+            Ok(_) => {}
+        }
+    }
+    if let Some(d) = dist {
+        behaviour.push(oi as u8);
+        d.add(hash64(&behaviour));
+    }
+    (n, out)
+}
+
+fn a2_run(rep: &mut Report, thorough: bool) -> u64 {
+    let sp = a2_space(if thorough { 3 } else { 2 });
+    let bad = a2_single_matrix(&sp);
+    let dist = Distinct::new();
+    rep.notes.push(format!(
+        "a2: {} patterns (8 single-AS forms, 8 range forms, 1 regex probe), {} sets x {{ANY,ALL,INVERT}} x {} AS_PATHs (<= {} segments, 4 types, 0..2 members of {{1,2,3}}, plus empty path and no attribute)",
+        sp.pats.len(),
+        sp.sets.len(),
+        sp.paths.len(),
+        sp.nseg
+    ));
+    rep.notes.push("assume: AS-path pattern semantics on paths with empty, AS_SET or confederation segments are not pinned by the statement: GoBGP's sequence-list reading, the flat-member reading and the per-segment reading are all accepted; on AS_SEQUENCE-only paths they coincide".into());
+    let jobs = (sp.sets.len() * 3) as u64;
+    enumr::par_range(jobs, rep, |i, local| {
+        let (si, oi) = ((i / 3) as usize, (i % 3) as usize);
+        let (n, vs) = a2_eval(&sp, &bad, si, oi, None, false, Some(&dist));
+        local.evaluations += n;
+        for (sig, what, case) in vs {
+            local.violation(Violation { sig, what, case });
+        }
+        if i % 37 == 0 {
+            local.samples.push(format!("a2 set {:?} {:?}", sp.sets[si].iter().map(|&k| sp.pats[k].text()).collect::<Vec<_>>(), OPTS[oi]));
+        }
+    });
+    dist.len()
+}
+
+fn a2_replay(idx: &[u64]) -> Vec<V3> {
+    if idx.len() < 4 {
+        return vec![];
+    }
+    let sp = a2_space(idx[0] as usize);
+    let bad = a2_single_matrix(&sp);
+    if idx[1] as usize >= sp.sets.len() || idx[2] > 2 || idx[3] as usize >= sp.paths.len() {
+        return vec![];
+    }
+    a2_eval(&sp, &bad, idx[1] as usize, idx[2] as usize, Some(idx[3] as usize), true, None).1
+}
+
+// ===========================================================================
+// A3: community / ext-community / large-community sets
+// ===========================================================================
+
+const NO_EXPORT: u32 = 0xffff_ff01;
+
+struct A3Kind {
+    name: &'static str,
+    npat: usize,
+    /// pattern indices -> condition
+    cond: fn(&[usize], Opt) -> RCond,
+    pat_text: fn(usize) -> String,
+    pat_class: fn(usize) -> String,
+    /// value lists: index -> route
+    nlists: usize,
+    route: fn(usize) -> RRoute,
+}
+
+fn comm_pats() -> Vec<CommPat> {
+    vec![CommPat::Exact(1, 1), CommPat::Numeric(65538), CommPat::HighAny(2), CommPat::WellKnown("no-export", NO_EXPORT)]
+}
+fn ext_pats() -> Vec<ExtPat> {
+    vec![ExtPat::Exact(false, 1, 1), ExtPat::Exact(true, 1, 1), ExtPat::RtAsnAny(1)]
+}
+fn large_pats() -> Vec<LargePat> {
+    vec![LargePat::Exact(1, 1, 1), LargePat::GlobalAny(1), LargePat::Exact(2, 2, 2)]
+}
+
+/// index -> None | Some([]) | 1-lists | ordered 2-lists over `n` values
+fn list_of(i: usize, n: usize) -> Option<Vec<usize>> {
+    if i == 0 {
+        None
+    } else if i == 1 {
+        Some(vec![])
+    } else if i < 2 + n {
+        Some(vec![i - 2])
+    } else {
+        let k = i - 2 - n;
+        Some(vec![k / n, k % n])
+    }
+}
+fn nlists(n: usize) -> usize {
+    2 + n + n * n
+}
+
+fn a3_kinds() -> Vec<A3Kind> {
+    vec![
+        A3Kind {
+            name: "community",
+            npat: 4,
+            cond: |p, o| RCond::Comm(p.iter().map(|&i| comm_pats()[i].clone()).collect(), o),
+            pat_text: |i| comm_pats()[i].text(),
+            pat_class: |i| comm_pats()[i].class().to_string(),
+            nlists: nlists(5),
+            route: |i| {
+                let vals = [0x0001_0001u32, 0x0001_0002, 0x0002_0001, NO_EXPORT, 0x0000_0005];
+                let mut r = RRoute::v4(10, 0, 0, 0, 8);
+                r.comms = list_of(i, 5).map(|l| l.iter().map(|&k| vals[k]).collect());
+                r
+            },
+        },
+        A3Kind {
+            name: "ext-community",
+            npat: 3,
+            cond: |p, o| RCond::Ext(p.iter().map(|&i| ext_pats()[i].clone()).collect(), o),
+            pat_text: |i| ext_pats()[i].text(),
+            pat_class: |i| match ext_pats()[i] {
+                ExtPat::Exact(..) => "anchored-exact".to_string(),
+                ExtPat::RtAsnAny(_) => "anchored-regex".to_string(),
+            },
+            nlists: nlists(5),
+            route: |i| {
+                let vals = [ext_rt(1, 1), ext_rt(1, 2), ext_soo(1, 1), ext_rt(2, 1), EXT_UNKNOWN];
+                let mut r = RRoute::v4(10, 0, 0, 0, 8);
+                r.ext = list_of(i, 5).map(|l| l.iter().map(|&k| vals[k]).collect());
+                r
+            },
+        },
+        A3Kind {
+            name: "large-community",
+            npat: 3,
+            cond: |p, o| RCond::Large(p.iter().map(|&i| large_pats()[i].clone()).collect(), o),
+            pat_text: |i| large_pats()[i].text(),
+            pat_class: |i| match large_pats()[i] {
+                LargePat::Exact(..) => "anchored-exact".to_string(),
+                LargePat::GlobalAny(_) => "anchored-regex".to_string(),
+            },
+            nlists: nlists(3),
+            route: |i| {
+                let vals = [(1u32, 1u32, 1u32), (1, 2, 3), (2, 2, 2)];
+                let mut r = RRoute::v4(10, 0, 0, 0, 8);
+                r.large = list_of(i, 3).map(|l| l.iter().map(|&k| vals[k]).collect());
+                r
+            },
+        },
+    ]
+}
+
+fn a3_sets(npat: usize) -> Vec<Vec<usize>> {
+    let mut sets: Vec<Vec<usize>> = (0..npat).map(|i| vec![i]).collect();
+    for i in 0..npat {
+        for j in i + 1..npat {
+            sets.push(vec![i, j]);
+        }
+    }
+    sets
+}
+
+fn a3_eval(k: &A3Kind, ki: usize, si: usize, oi: usize, only: Option<usize>, bad_pat: &[bool], verbose: bool, dist: Option<&Distinct>) -> (u64, Vec<V3>) {
+    let sets = a3_sets(k.npat);
+    let set = &sets[si];
+    let opt = OPTS[oi];
+    let texts: Vec<String> = set.iter().map(|&i| (k.pat_text)(i)).collect();
+    let cond = (k.cond)(set, opt);
+    let mut out = Vec::new();
+    let dir = if ki % 2 == 0 { Dir::Import } else { Dir::Export };
+    let inst = match install(&one_cond(cond.clone(), Disp::Reject), dir) {
+        Ok(i) => i,
+        Err(e) => {
+            out.push((
+                format!("C14/build/{}-set-rejected", k.name),
+                format!("{} set {texts:?} {opt:?} was not accepted by the API: {e}", k.name),
+                format!("a3#{ki},{si},{oi},0#build"),
+            ));
+            return (0, out);
+        }
+    };
+    let mut n = 0;
+    let mut behaviour = vec![ki as u8, oi as u8];
+    for li in 0..k.nlists {
+        if only.is_some_and(|x| x != li) {
+            continue;
+        }
+        n += 1;
+        let r = (k.route)(li);
+        let env = Env::of(dir, &r);
+        let acceptable = ref_cond(&cond, &r, &env);
+        let got = eval_subject(&inst.asg, &r, &env).map(|o| o.disp == Disp::Accept);
+        behaviour.push(match &got {
+            Ok(true) => b'1',
+            Ok(false) => b'0',
+            Err(_) => b'P',
+        });
+        let render = || format!("a3#{ki},{si},{oi},{li}#{}-set {:?} {:?} x route {}", k.name, texts, opt, r.text());
+        if verbose {
+            eprintln!("  {}\n    acceptable verdicts {:?}\n    observed {:?}", render(), acceptable, got);
+        }
+        let member_bad = set.iter().any(|&i| bad_pat[i]);
+        if member_bad && !(set.len() == 1 && opt == Opt::Any) && !verbose {
+            continue;
+        }
+        let shape = if set.len() == 1 {
+            let c = (k.pat_class)(set[0]);
+            if opt == Opt::Any { format!("pattern={c}") } else { format!("pattern={c}/opt={opt:?}") }
+        } else {
+            format!("two-patterns/opt={opt:?}")
+        };
+        match got {
+            Err(p) => out.push((format!("C14/no-panic/{}-set/{shape}", k.name), format!("policy evaluation panicked: {p}"), render())),
+            Ok(v) if !acceptable.contains(&v) => out.push((
+                format!("C14/eval/{}-set/{shape}", k.name),
+                format!("{} condition {texts:?} {opt:?}: the statement gives {acceptable:?}, the engine gave {v}", k.name),
+                render(),
+            )),
+            Ok(_) => {}
+        }
+    }
+    if let Some(d) = dist {
+        d.add(hash64(&behaviour));
+    }
+    (n, out)
+}
+
+fn a3_bad_pats(k: &A3Kind, ki: usize) -> Vec<bool> {
+    let none = vec![false; k.npat];
+    (0..k.npat).map(|p| !a3_eval(k, ki, p, 0, None, &none, false, None).1.is_empty()).collect()
+}
+
+fn a3_run(rep: &mut Report, _thorough: bool) -> u64 {
+    let dist = Distinct::new();
+    for (ki, k) in a3_kinds().iter().enumerate() {
+        let bad = a3_bad_pats(k, ki);
+        let sets = a3_sets(k.npat);
+        rep.notes.push(format!(
+            "a3/{}: patterns {:?}; {} sets of <=2 patterns x {{ANY,ALL,INVERT}} x {} value lists (absent, zero-length, <=2 values)",
+            k.name,
+            (0..k.npat).map(|i| (k.pat_text)(i)).collect::<Vec<_>>(),
+            sets.len(),
+            k.nlists
+        ));
+        for si in 0..sets.len() {
+            for oi in 0..3 {
+                let (n, vs) = a3_eval(k, ki, si, oi, None, &bad, false, Some(&dist));
+                rep.evaluations += n;
+                for (sig, what, case) in vs {
+                    rep.violation(Violation { sig, what, case });
+                }
+            }
+        }
+        rep.samples.push(format!("a3 {}-set [{}] ANY x {}", k.name, (k.pat_text)(0), (k.route)(3).text()));
+    }
+    rep.notes.push("assume: ext-/large-community patterns are written with explicit ^...$ anchors (GoBGP anchors bare values, rustybgp treats them as unanchored regular expressions; the statement does not decide)".into());
+    dist.len()
+}
+
+fn a3_replay(idx: &[u64]) -> Vec<V3> {
+    if idx.len() < 4 {
+        return vec![];
+    }
+    let kinds = a3_kinds();
+    let ki = idx[0] as usize;
+    if ki >= kinds.len() {
+        return vec![];
+    }
+    let k = &kinds[ki];
+    let none = vec![false; k.npat];
+    if idx[1] as usize >= a3_sets(k.npat).len() || idx[2] > 2 {
+        return vec![];
+    }
+    a3_eval(k, ki, idx[1] as usize, idx[2] as usize, Some(idx[3] as usize), &none, true, None).1
+}
+
+// ===========================================================================
+// A4: scalar conditions, each at / below / above (and absent)
+// ===========================================================================
+
+struct A4Case {
+    kind: &'static str,
+    shape: String,
+    conds: Vec<RCond>,
+    route: RRoute,
+    dir: Dir,
+    vrps: Vec<(bool, u128, u8, u8, u32)>,
+}
+
+fn a4_cases() -> Vec<A4Case> {
+    let mut v = Vec::new();
+    let base = || RRoute::v4(10, 0, 0, 0, 8);
+    let mut push = |kind: &'static str, shape: String, conds: Vec<RCond>, route: RRoute, dir: Dir| {
+        v.push(A4Case { kind, shape, conds, route, dir, vrps: vec![] });
+    };
+    // AS_PATH length
+    let seq = |n: usize| (SEG_SEQ, (0..n).map(|i| 100 + i as u32).collect::<Vec<u32>>());
+    let paths: Vec<Option<Segs>> = vec![
+        None,
+        Some(vec![]),
+        Some(vec![seq(1)]),
+        Some(vec![seq(2)]),
+        Some(vec![seq(3)]),
+        Some(vec![(SEG_SET, vec![1, 2])]),
+        Some(vec![seq(1), (SEG_SET, vec![2, 3])]),
+        Some(vec![(SEG_CSEQ, vec![1, 2])]),
+        Some(vec![seq(1), (SEG_CSEQ, vec![2])]),
+        Some(vec![(SEG_SEQ, vec![])]),
+        Some(vec![seq(254)]),
+        Some(vec![seq(255)]),
+        Some(vec![seq(128), seq(128)]),
+        Some(vec![seq(255), (SEG_SET, vec![7])]),
+        Some(vec![seq(255), seq(45)]),
+    ];
+    for p in &paths {
+        for cmp in [Cmp::Eq, Cmp::Ge, Cmp::Le] {
+            for val in [0u32, 1, 2, 3, 44, 255, 256, 300] {
+                let mut r = base();
+                r.as_path = p.clone();
+                let shape = match p {
+                    None => "no-aspath-attribute".to_string(),
+                    Some(p) if as_path_len(p) >= 256 => "path-length>=256".to_string(),
+                    Some(_) => "path-length<256".to_string(),
+                };
+                push("as-path-length", shape, vec![RCond::AsPathLen(cmp, val)], r, Dir::Import);
+            }
+        }
+    }
+    // next hop
+    let ip = |s: &str| -> IpAddr { s.parse().unwrap() };
+    for list in [vec![ip("192.0.2.1")], vec![ip("192.0.2.1"), ip("192.0.2.2")], vec![ip("2001:db8::1")]] {
+        for nh in [Some(ip("192.0.2.1")), Some(ip("192.0.2.2")), Some(ip("192.0.2.3")), None, Some(ip("2001:db8::1"))] {
+            for dir in [Dir::Import, Dir::Export] {
+                let mut r = base();
+                r.nexthop = nh;
+                push("next-hop", "-".into(), vec![RCond::Nexthop(list.clone())], r, dir);
+            }
+        }
+    }
+    // neighbour sets
+    let nsets: Vec<Vec<(IpAddr, u8)>> = vec![
+        vec![(ip("10.0.0.1"), 32)],
+        vec![(ip("10.0.0.0"), 24)],
+        vec![(ip("10.0.1.0"), 24)],
+        vec![(ip("10.0.0.1"), 32), (ip("10.0.0.9"), 32)],
+        vec![(ip("10.0.0.8"), 31)],
+    ];
+    for ns in &nsets {
+        for opt in [Opt::Any, Opt::Invert] {
+            for src in [Src::Ebgp, Src::Ibgp] {
+                for dir in [Dir::Import, Dir::Export] {
+                    let mut r = base();
+                    r.src = src;
+                    push("neighbor-set", format!("opt={opt:?}"), vec![RCond::Neighbor(ns.clone(), opt)], r, dir);
+                }
+            }
+        }
+    }
+    // LOCAL_PREF / MED / ORIGIN equality
+    for x in [None, Some(99u32), Some(100), Some(101)] {
+        let mut r = base();
+        r.lp = x;
+        push("local-pref-eq", "-".into(), vec![RCond::LocalPrefEq(100)], r, Dir::Import);
+    }
+    for x in [None, Some(9u32), Some(10), Some(11), Some(0)] {
+        let mut r = base();
+        r.med = x;
+        push("med-eq", "-".into(), vec![RCond::MedEq(10)], r.clone(), Dir::Import);
+        push("med-eq", "-".into(), vec![RCond::MedEq(0)], r, Dir::Export);
+    }
+    for x in [None, Some(0u32), Some(1), Some(2)] {
+        for want in [0u8, 1, 2] {
+            let mut r = base();
+            r.origin = x;
+            push("origin", "-".into(), vec![RCond::Origin(want)], r, Dir::Import);
+        }
+    }
+    // route type
+    for t in [RT::Internal, RT::External, RT::Local] {
+        for src in [Src::Ebgp, Src::Ibgp, Src::Local] {
+            for dir in [Dir::Import, Dir::Export] {
+                let mut r = base();
+                r.src = src;
+                push("route-type", "-".into(), vec![RCond::RouteType(t)], r, dir);
+            }
+        }
+    }
+    // community count
+    for comms in [None, Some(vec![]), Some(vec![1u32]), Some(vec![1, 2]), Some(vec![1, 2, 3])] {
+        for cmp in [Cmp::Eq, Cmp::Ge, Cmp::Le] {
+            for val in [0u32, 1, 2, 3] {
+                let mut r = base();
+                r.comms = comms.clone();
+                push("community-count", "-".into(), vec![RCond::CommCount(cmp, val)], r, Dir::Import);
+            }
+        }
+    }
+    // address family
+    for fams in [vec![false], vec![true], vec![false, true]] {
+        for v6 in [false, true] {
+            let r = if v6 { RRoute::bare(true, 0x2001_0db8u128 << 96, 32) } else { base() };
+            push("afi-safi-in", "-".into(), vec![RCond::AfiSafiIn(fams.clone())], r, Dir::Import);
+        }
+    }
+    // conjunction: ALL conditions of a statement must hold
+    for lp in [99u32, 100] {
+        for med in [9u32, 10] {
+            for origin in [0u32, 1] {
+                let mut r = base();
+                r.lp = Some(lp);
+                r.med = Some(med);
+                r.origin = Some(origin);
+                push(
+                    "conjunction",
+                    "-".into(),
+                    vec![RCond::LocalPrefEq(100), RCond::MedEq(10), RCond::Origin(0)],
+                    r.clone(),
+                    Dir::Export,
+                );
+                push("conjunction", "-".into(), vec![RCond::Origin(0), RCond::LocalPrefEq(100)], r, Dir::Import);
+            }
+        }
+    }
+    // RPKI state (exact-length VRPs only; covering-VRP behaviour belongs to C12)
+    let ten8 = 0x0a00_0000u128 << 96;
+    let eleven8 = 0x0b00_0000u128 << 96;
+    let vrp_sets: Vec<Vec<(bool, u128, u8, u8, u32)>> = vec![
+        vec![],
+        vec![(false, ten8, 8, 8, 65001)],
+        vec![(false, ten8, 8, 8, 2)],
+        vec![(false, eleven8, 8, 8, 65001)],
+        vec![(false, ten8, 8, 8, 2), (false, ten8, 8, 8, 65001)],
+    ];
+    for vs in &vrp_sets {
+        for want in [Rov::NotFound, Rov::Valid, Rov::Invalid] {
+            for dir in [Dir::Import, Dir::Export] {
+                v.push(A4Case { kind: "rpki", shape: format!("vrps={}", vs.len()), conds: vec![RCond::Rpki(want)], route: base(), dir, vrps: vs.clone() });
+            }
+        }
+    }
+    v
+}
+
+fn a4_eval(i: usize, c: &A4Case, verbose: bool, dist: Option<&Distinct>) -> (u64, Vec<V3>) {
+    let mut out = Vec::new();
+    let mut n = 0;
+    for (di, default) in [Disp::Reject, Disp::Accept].into_iter().enumerate() {
+        let d = if default == Disp::Accept { Disp::Reject } else { Disp::Accept };
+        let prog = RAssign { policies: vec![RPolicy { stmts: vec![RStmt { conds: c.conds.clone(), disp: Some(d), acts: vec![] }] }], default };
+        let render = || format!("a4#{i},{di}#{} {:?} default={default:?} {:?} x route {}", c.kind, c.conds, c.dir, c.route.text());
+        let inst = match install(&prog, c.dir) {
+            Ok(x) => x,
+            Err(e) => {
+                out.push((format!("C14/build/{}", c.kind), format!("condition not accepted by the API: {e}"), render()));
+                continue;
+            }
+        };
+        let mut env = Env::of(c.dir, &c.route);
+        if !c.vrps.is_empty() || c.kind == "rpki" {
+            let mut t = RpkiTable::new();
+            let rtr: Arc<IpAddr> = Arc::new("192.0.2.200".parse().unwrap());
+            for (v6, addr, plen, maxlen, asn) in &c.vrps {
+                let net = if *v6 { IpNet::new(IpAddr::V6(Ipv6Addr::from(*addr)), *plen) } else { IpNet::new(IpAddr::V4(Ipv4Addr::from((*addr >> 96) as u32)), *plen) };
+                t.insert(net, Arc::new(Roa::new(*maxlen, *asn, rtr.clone())));
+            }
+            env.rpki = Some(t);
+            env.vrps = c.vrps.clone();
+        }
+        n += 1;
+        let expected = ref_eval(&prog, &c.route, &env);
+        let got = eval_subject(&inst.asg, &c.route, &env);
+        if let Some(dd) = dist {
+            let mut b = format!("{}{:?}", c.kind, c.conds).into_bytes();
+            b.extend(outcome_code(&got));
+            dd.add(hash64(&b));
+        }
+        if verbose {
+            eprintln!("  {}\n    acceptable {:?}\n    observed {:?}", render(), expected.iter().map(|o| o.text()).collect::<Vec<_>>(), got.as_ref().map(|o| o.text()));
+        }
+        match got {
+            Err(p) => out.push((format!("C14/no-panic/{}/{}", c.kind, c.shape), format!("policy evaluation panicked: {p}"), render())),
+            Ok(g) if !expected.contains(&g) => out.push((
+                format!("C14/eval/{}/{}", c.kind, c.shape),
+                format!("the statement gives {:?}, the engine gave {}", expected.iter().map(|o| o.text()).collect::<Vec<_>>(), g.text()),
+                render(),
+            )),
+            Ok(_) => {}
+        }
+    }
+    (n, out)
+}
+
+fn a4_run(rep: &mut Report, _thorough: bool) -> u64 {
+    let cases = a4_cases();
+    let dist = Distinct::new();
+    let mut kinds: BTreeMap<&str, u64> = BTreeMap::new();
+    for c in &cases {
+        *kinds.entry(c.kind).or_insert(0) += 1;
+    }
+    rep.notes.push(format!("a4: scalar conditions at/below/above/absent, x2 defaults: {kinds:?}"));
+    rep.notes.push("assume: AS_PATH-length and RPKI conditions on a route without AS_PATH attribute / with an empty VRP table may either use length 0 / NotFound or not apply (both accepted)".into());
+    enumr::par_range(cases.len() as u64, rep, |i, local| {
+        let (n, vs) = a4_eval(i as usize, &cases[i as usize], false, Some(&dist));
+        local.evaluations += n;
+        for (sig, what, case) in vs {
+            local.violation(Violation { sig, what, case });
+        }
+    });
+    rep.samples.push(format!("a4 {:?} x {}", cases[40].conds, cases[40].route.text()));
+    dist.len()
+}
+
+fn a4_replay(idx: &[u64]) -> Vec<V3> {
+    let cases = a4_cases();
+    match idx.first() {
+        Some(&i) if (i as usize) < cases.len() => a4_eval(i as usize, &cases[i as usize], true, None).1,
+        _ => vec![],
+    }
+}
+
+// ===========================================================================
+// A5: chaining of statements, policies and the default
+// ===========================================================================
+
+struct A5Space {
+    level: u8,
+    stmts: Vec<RStmt>,
+    /// policy = statement indices
+    policies: Vec<Vec<usize>>,
+}
+
+fn a5_space(level: u8) -> A5Space {
+    let ten8 = 0x0a00_0000u128 << 96;
+    let cond_true = RCond::Prefix(vec![PEntry { v6: false, addr: ten8, plen: 8, min: 8, max: 8 }], Opt::Any);
+    let cond_false = RCond::AfiSafiIn(vec![true]);
+    // level 0: quick; 1: thorough; 2: side sweep with condition-less statements
+    let conds: Vec<Vec<RCond>> = match level {
+        2 => vec![vec![], vec![cond_true.clone()], vec![cond_false.clone()], vec![cond_true.clone(), cond_false.clone()]],
+        _ => vec![vec![cond_true.clone()], vec![cond_false.clone()]],
+    };
+    let mut acts: Vec<Vec<RAct>> = vec![vec![], vec![RAct::SetLp(200)], vec![RAct::CommAdd(vec![0x0002_0002])], vec![RAct::MedMod(5)]];
+    if level == 1 {
+        acts.push(vec![RAct::MedMod(-20)]);
+        acts.push(vec![RAct::MedSet(7)]);
+        acts.push(vec![RAct::NhAddr("192.0.2.99".parse().unwrap())]);
+    }
+    if level == 2 {
+        acts = vec![
+            vec![],
+            vec![RAct::SetLp(200), RAct::CommAdd(vec![0x0002_0002]), RAct::MedMod(-20)],
+            vec![RAct::CommRemove(vec![0x0001_0001])],
+            vec![RAct::CommReplace(vec![0x0003_0003])],
+            vec![RAct::NhSelf],
+            vec![RAct::NhPeer],
+            vec![RAct::NhUnchanged],
+            vec![RAct::Origin(2), RAct::MedSet(-1)],
+        ];
+    }
+    let mut stmts = Vec::new();
+    for c in &conds {
+        for d in [None, Some(Disp::Accept), Some(Disp::Reject)] {
+            for a in &acts {
+                stmts.push(RStmt { conds: c.clone(), disp: d, acts: a.clone() });
+            }
+        }
+    }
+    let mut policies: Vec<Vec<usize>> = vec![vec![]];
+    for i in 0..stmts.len() {
+        policies.push(vec![i]);
+    }
+    if level != 2 {
+        for i in 0..stmts.len() {
+            for j in 0..stmts.len() {
+                policies.push(vec![i, j]);
+            }
+        }
+    } else {
+        // pairs only with a pass-through first statement (the interesting accumulation cases)
+        for i in 0..stmts.len() {
+            if stmts[i].disp.is_some() {
+                continue;
+            }
+            for j in 0..stmts.len() {
+                policies.push(vec![i, j]);
+            }
+        }
+    }
+    A5Space { level, stmts, policies }
+}
+
+fn a5_routes() -> Vec<RRoute> {
+    let mut rich = RRoute::v4(10, 0, 0, 0, 8);
+    rich.med = Some(100);
+    rich.lp = Some(100);
+    rich.comms = Some(vec![0x0001_0001]);
+    let bare = RRoute::v4(10, 0, 0, 0, 8);
+    vec![rich, bare]
+}
+
+fn a5_prog(sp: &A5Space, a: usize, b: usize, default: Disp) -> RAssign {
+    // a, b: 0 = absent, k = policy k-1
+    let mut policies = Vec::new();
+    for x in [a, b] {
+        if x > 0 {
+            policies.push(RPolicy { stmts: sp.policies[x - 1].iter().map(|&i| sp.stmts[i].clone()).collect() });
+        }
+    }
+    RAssign { policies, default }
+}
+
+fn has_nh_action(p: &RAssign) -> bool {
+    p.policies.iter().any(|p| p.stmts.iter().any(|s| s.acts.iter().any(|a| matches!(a, RAct::NhAddr(_) | RAct::NhSelf | RAct::NhPeer | RAct::NhUnchanged))))
+}
+
+fn a5_eval(sp: &A5Space, a: usize, b: usize, only: Option<(usize, usize, usize)>, verbose: bool, dist: Option<&Distinct>, skipped: &mut u64) -> (u64, Vec<V3>) {
+    let mut out = Vec::new();
+    let mut n = 0;
+    let routes = a5_routes();
+    let mut behaviour = Vec::new();
+    for (di, dir) in [Dir::Import, Dir::Export].into_iter().enumerate() {
+        for (fi, default) in [Disp::Accept, Disp::Reject].into_iter().enumerate() {
+            if only.is_some_and(|(x, y, _)| x != di || y != fi) {
+                continue;
+            }
+            let prog = a5_prog(sp, a, b, default);
+            let render = |ri: usize| {
+                let pol = |p: &RPolicy| {
+                    p.stmts
+                        .iter()
+                        .map(|s| format!("[if {} then {:?} {:?}]", s.conds.iter().map(cond_brief).collect::<Vec<_>>().join("&"), s.acts, s.disp))
+                        .collect::<Vec<_>>()
+                        .join(" ")
+                };
+                format!(
+                    "a5#{},{a},{b},{di},{fi},{ri}#{dir:?} default={default:?} policies: {} x route {}",
+                    sp.level,
+                    prog.policies.iter().map(pol).collect::<Vec<_>>().join(" || "),
+                    routes[ri].text()
+                )
+            };
+            let inst = match install(&prog, dir) {
+                Ok(x) => x,
+                Err(e) => {
+                    if dir == Dir::Import && has_nh_action(&prog) && e.contains("InvalidArgument") {
+                        // documented restriction: import policies may not set the next hop
+                        *skipped += 1;
+                    } else {
+                        out.push(("C14/build/chain".to_string(), format!("program not accepted by the API: {e}"), render(0)));
+                    }
+                    continue;
+                }
+            };
+            for (ri, r) in routes.iter().enumerate() {
+                if only.is_some_and(|(_, _, z)| z != ri) {
+                    continue;
+                }
+                n += 1;
+                let env = Env::of(dir, r);
+                let expected = ref_eval(&prog, r, &env);
+                let got = eval_subject(&inst.asg, r, &env);
+                behaviour.extend(outcome_code(&got));
+                behaviour.push(b'|');
+                if verbose {
+                    eprintln!("  {}\n    acceptable {:?}\n    observed {:?}", render(ri), expected.iter().map(|o| o.text()).collect::<Vec<_>>(), got.as_ref().map(|o| o.text()));
+                }
+                match got {
+                    Err(p) => out.push((format!("C14/no-panic/chain/{}", panic_site(&p)), format!("policy evaluation panicked: {p}"), render(ri))),
+                    Ok(g) if !expected.contains(&g) => {
+                        let what = if expected.iter().all(|e| e.disp != g.disp) {
+                            "disposition"
+                        } else if expected.iter().all(|e| e.disp != g.disp || e.nh != g.nh) {
+                            "next-hop"
+                        } else {
+                            "attributes"
+                        };
+                        out.push((
+                            format!("C14/eval/chain/{what}"),
+                            format!("the statement gives {:?}, the engine gave {}", expected.iter().map(|o| o.text()).collect::<Vec<_>>(), g.text()),
+                            render(ri),
+                        ));
+                    }
+                    Ok(_) => {}
+                }
+            }
+        }
+    }
+    if let Some(d) = dist {
+        d.add(hash64(&behaviour));
+    }
+    (n, out)
+}
+
+fn cond_brief(c: &RCond) -> String {
+    match c {
+        RCond::Prefix(es, o) => format!("prefix{{{}}}{o:?}", es.iter().map(|e| e.text()).collect::<Vec<_>>().join(",")),
+        RCond::AfiSafiIn(f) => format!("afi-in{:?}", f.iter().map(|&x| if x { "v6" } else { "v4" }).collect::<Vec<_>>()),
+        other => format!("{other:?}"),
+    }
+}
+
+fn a5_run(rep: &mut Report, thorough: bool) -> u64 {
+    let dist = Distinct::new();
+    let levels: Vec<u8> = if thorough { vec![1, 2] } else { vec![0, 2] };
+    for level in levels {
+        let sp = a5_space(level);
+        let np = sp.policies.len() + 1;
+        let skipped = std::sync::atomic::AtomicU64::new(0);
+        rep.notes.push(format!(
+            "a5/level{level}: {} statement kinds (condition x disposition x actions), {} policies of <=2 statements, {} assignments of <=2 policies x {{import,export}} x {{accept,reject}} default x 2 routes",
+            sp.stmts.len(),
+            sp.policies.len(),
+            1 + sp.policies.len() + sp.policies.len() * sp.policies.len()
+        ));
+        enumr::par_range((np * np) as u64, rep, |i, local| {
+            let (a, b) = ((i as usize) / np, (i as usize) % np);
+            if a == 0 && b != 0 {
+                return;
+            }
+            let mut sk = 0;
+            let (n, vs) = a5_eval(&sp, a, b, None, false, Some(&dist), &mut sk);
+            skipped.fetch_add(sk, std::sync::atomic::Ordering::Relaxed);
+            local.evaluations += n;
+            for (sig, what, case) in vs {
+                local.violation(Violation { sig, what, case });
+            }
+            if i % 250_007 == 1 {
+                let p = a5_prog(&sp, a, b, Disp::Accept);
+                local.samples.push(format!("a5 assignment of {} policies / {} statements", p.policies.len(), p.policies.iter().map(|p| p.stmts.len()).sum::<usize>()));
+            }
+        });
+        let sk = skipped.load(std::sync::atomic::Ordering::Relaxed);
+        if sk > 0 {
+            rep.notes.push(format!("a5/level{level}: {sk} import programs with a next-hop action were refused by build_assignment (documented restriction; not evaluated)"));
+        }
+    }
+    rep.notes.push("assume: conditions of later statements may see either the accumulated or the original attributes; an out-of-range MED +/- may clamp or leave the MED unchanged; community lists are compared as sets".into());
+    dist.len()
+}
+
+fn a5_replay(idx: &[u64]) -> Vec<V3> {
+    if idx.len() < 6 {
+        return vec![];
+    }
+    let sp = a5_space(idx[0] as u8);
+    let np = sp.policies.len() + 1;
+    if idx[1] as usize >= np || idx[2] as usize >= np {
+        return vec![];
+    }
+    let mut sk = 0;
+    a5_eval(&sp, idx[1] as usize, idx[2] as usize, Some((idx[3] as usize, idx[4] as usize, idx[5] as usize)), true, None, &mut sk).1
+}
+
+// ===========================================================================
+// A6: AS_PATH prepend action over every enumerated AS_PATH (no panic, members kept)
+// ===========================================================================
+
+fn read_segs(b: &[u8]) -> Option<Segs> {
+    let mut out = Vec::new();
+    let mut i = 0;
+    while i < b.len() {
+        if i + 2 > b.len() {
+            return None;
+        }
+        let (t, n) = (b[i], b[i + 1] as usize);
+        if !(1..=4).contains(&t) || i + 2 + 4 * n > b.len() {
+            return None;
+        }
+        let m = (0..n).map(|k| u32::from_be_bytes([b[i + 2 + 4 * k], b[i + 3 + 4 * k], b[i + 4 + 4 * k], b[i + 5 + 4 * k]])).collect();
+        out.push((t, m));
+        i += 2 + 4 * n;
+    }
+    Some(out)
+}
+
+fn a6_eval(sp: &A2Space, variant: usize, pi: usize, verbose: bool) -> Vec<V3> {
+    let (left_most, confed) = (variant & 1 == 1, variant & 2 == 2);
+    let path = &sp.paths[pi];
+    let render = || format!("a6#{},{variant},{pi}#as-prepend(asn=9,repeat=2,use_left_most={left_most}) confed={confed} x AS_PATH {}", sp.nseg, path.as_ref().map(segs_text).unwrap_or("<no attribute>".into()));
+    let mut out = Vec::new();
+    let built = report::catch(|| {
+        let mut pt = PolicyTable::new();
+        let actions = Actions { as_prepend: Some(rustybgp_table::AsPrependAction { asn: 9, repeat: 2, use_left_most: left_most }), ..Default::default() };
+        pt.add_statement("s", vec![], Some(Disposition::Accept), actions).map_err(err_str)?;
+        pt.add_policy("p", vec!["s".to_string()]).map_err(err_str)?;
+        pt.add_assignment("global", PolicyDirection::Export, Disposition::Reject, vec!["p".to_string()]).map(|x| x.1).map_err(err_str)
+    });
+    let asg = match built {
+        Ok(Ok(a)) => a,
+        other => {
+            out.push(("C14/build/as-prepend".to_string(), format!("as-prepend statement not accepted: {:?}", other.map(|r| r.map(|_| ()))), render()));
+            return out;
+        }
+    };
+    let r = a2_route(path);
+    let (nlri, attrs, nh, src) = to_subject(&r);
+    let res = report::catch(|| {
+        let mut a = attrs.clone();
+        let mut nh = nh;
+        let d = rustybgp_table::apply_export(&asg, None, &src, &nlri, &mut a, &mut nh, None, confed, LOCAL_ADDR.parse().unwrap(), "10.0.0.9".parse().unwrap());
+        (d, a)
+    });
+    match res {
+        Err(p) => out.push((format!("C14/no-panic/as-prepend/{}", path_class(path)), format!("as-prepend action panicked: {p}"), render())),
+        Ok((d, a)) => {
+            let got = a.iter().find(|x| x.code() == Attribute::AS_PATH).and_then(|x| x.binary().cloned()).and_then(|b| read_segs(&b));
+            let orig_flat: Vec<u32> = path.iter().flatten().flat_map(|(_, m)| m.iter().copied()).collect();
+            let mut firsts: Vec<u32> = vec![9];
+            if left_most {
+                if let Some(x) = path.as_ref().and_then(|p| p.first()).and_then(|(_, m)| m.first()) {
+                    firsts.push(*x);
+                }
+                if let Some(x) = orig_flat.first() {
+                    firsts.push(*x);
+                }
+                // GoBGP: leftmost AS of the sequence list
+                if let Some(x) = path.as_ref().and_then(|p| p.iter().find(|(t, _)| *t == SEG_SEQ)).and_then(|(_, m)| m.first()) {
+                    firsts.push(*x);
+                }
+            } else {
+                firsts.truncate(1);
+            }
+            let ok = Disp::of(d) == Disp::Accept
+                && got.as_ref().is_some_and(|g| {
+                    let flat: Vec<u32> = g.iter().flat_map(|(_, m)| m.iter().copied()).collect();
+                    let want_t = if confed { SEG_CSEQ } else { SEG_SEQ };
+                    g.first().is_some_and(|(t, _)| *t == want_t)
+                        && firsts.iter().any(|x| {
+                            let mut w = vec![*x, *x];
+                            w.extend_from_slice(&orig_flat);
+                            w == flat
+                        })
+                });
+            if verbose {
+                eprintln!("  {}\n    disposition {:?} resulting AS_PATH {:?}", render(), Disp::of(d), got.as_ref().map(segs_text));
+            }
+            if !ok {
+                out.push((
+                    format!("C14/eval/as-prepend/{}", path_class(path)),
+                    format!("expected accept with 2 x (9 or the leftmost AS) prepended in a leading {} segment and all other members kept; got {:?} {:?}", if confed { "AS_CONFED_SEQUENCE" } else { "AS_SEQUENCE" }, Disp::of(d), got.as_ref().map(segs_text)),
+                    render(),
+                ));
+            }
+        }
+    }
+    out
+}
+
+fn a6_run(rep: &mut Report, _thorough: bool) -> u64 {
+    let sp = a2_space(2);
+    rep.notes.push(format!("a6: as-prepend action (fixed ASN / leftmost) x (plain / confederation peer) x {} AS_PATHs: no panic, well-formed result, members preserved", sp.paths.len()));
+    let n = (sp.paths.len() * 4) as u64;
+    let dist = Distinct::new();
+    enumr::par_range(n, rep, |i, local| {
+        let (variant, pi) = ((i % 4) as usize, (i / 4) as usize);
+        let vs = a6_eval(&sp, variant, pi, false);
+        local.evaluations += 1;
+        dist.add(hash64(format!("{variant}{}", path_class(&sp.paths[pi])).as_bytes()));
+        for (sig, what, case) in vs {
+            local.violation(Violation { sig, what, case });
+        }
+    });
+    dist.len()
+}
+
+fn a6_replay(idx: &[u64]) -> Vec<V3> {
+    if idx.len() < 3 {
+        return vec![];
+    }
+    let sp = a2_space(idx[0] as usize);
+    if idx[1] > 3 || idx[2] as usize >= sp.paths.len() {
+        return vec![];
+    }
+    a6_eval(&sp, idx[1] as usize, idx[2] as usize, true)
+}
+
+// ===========================================================================
+// Part (b): CRUD histories (vx::bfs).  The harness plays the daemon: it owns the
+// PolicyTable, stores the Arc<PolicyAssignment> returned by add / set / delete
+// calls in the global import / export slots (TableManager::{import,export}_policy)
+// and keeps one per-peer export override built with build_assignment, guarded by
+// the daemon's own `references_policy` check before add_policy / delete_policy
+// (daemon/src/event/mod.rs Global::{add_policy,delete_policy,add_policy_assignment,...}).
+// ===========================================================================
+
+#[derive(Clone, Copy, Debug, PartialEq)]
+enum SK {
+    Prefix,
+    AsPath,
+}
+
+#[derive(Clone, Debug)]
+enum CrudOp {
+    SetAdd(SK, usize, usize),
+    SetReplace(SK, usize, usize),
+    SetDelAll(SK, usize),
+    SetDelPart(SK, usize, usize),
+    StmtAdd(usize, usize),
+    StmtDelAll(usize),
+    StmtDelPrefixCond(usize),
+    PolAdd(usize, Vec<usize>),
+    PolDel { name: usize, preserve: bool, all: bool, stmts: Vec<usize> },
+    AsgAdd(Dir, usize),
+    AsgSet(Dir, Vec<usize>),
+    AsgDelAll(Dir),
+    AsgDelPart(Dir, usize),
+    PeerAdd(usize),
+    PeerSet(usize),
+    PeerDelAll,
+    PeerDelPart(usize),
+}
+
+fn crud_ops() -> Vec<CrudOp> {
+    use CrudOp::*;
+    let mut v = Vec::new();
+    // simplest first
+    for n in 0..2 {
+        v.push(SetAdd(SK::Prefix, n, 0));
+    }
+    for n in 0..2 {
+        v.push(StmtAdd(n, n)); // S0: if prefix X0 accept + LP ; S1: if prefix X1 reject
+    }
+    for n in 0..2 {
+        v.push(PolAdd(n, vec![n]));
+    }
+    for d in [Dir::Import, Dir::Export] {
+        for p in 0..2 {
+            v.push(AsgAdd(d, p));
+        }
+    }
+    v.push(PeerAdd(0));
+    v.push(PeerAdd(1));
+    // deletions
+    for n in 0..2 {
+        v.push(SetDelAll(SK::Prefix, n));
+        v.push(StmtDelAll(n));
+        v.push(PolDel { name: n, preserve: true, all: true, stmts: vec![] });
+        v.push(PolDel { name: n, preserve: false, all: true, stmts: vec![] });
+    }
+    for d in [Dir::Import, Dir::Export] {
+        v.push(AsgDelAll(d));
+        v.push(AsgDelPart(d, 0));
+    }
+    v.push(PeerDelAll);
+    v.push(PeerDelPart(0));
+    // replacements / merges / partial edits
+    for n in 0..2 {
+        v.push(SetAdd(SK::Prefix, n, 1));
+        v.push(SetReplace(SK::Prefix, n, 1));
+        v.push(SetDelPart(SK::Prefix, n, 0));
+        v.push(StmtAdd(n, 2)); // merge: as-path condition on aspath-set X0
+        v.push(StmtAdd(n, 3)); // merge: MED action only
+        v.push(StmtAdd(n, 1 - n)); // other prefix set
+        v.push(StmtDelPrefixCond(n));
+        v.push(PolAdd(n, vec![1 - n])); // append the other statement
+        v.push(PolDel { name: n, preserve: true, all: false, stmts: vec![0] });
+        v.push(PolDel { name: n, preserve: false, all: false, stmts: vec![0] });
+    }
+    // a second kind of set sharing the name X0 (kind confusion in the in-use checks)
+    v.push(SetAdd(SK::AsPath, 0, 0));
+    v.push(SetReplace(SK::AsPath, 0, 1));
+    v.push(SetDelAll(SK::AsPath, 0));
+    for d in [Dir::Import, Dir::Export] {
+        v.push(AsgSet(d, vec![1]));
+        v.push(AsgSet(d, vec![0, 1]));
+    }
+    v.push(PeerSet(1));
+    v
+}
+
+fn crud_set_cfg(k: SK, name: usize, content: usize) -> DefinedSetConfig {
+    let name = format!("X{name}");
+    match k {
+        SK::Prefix => {
+            let pc = |p: &str, lo, hi| PrefixConfig { ip_prefix: p.to_string(), mask_length_min: lo, mask_length_max: hi };
+            let prefixes = if content == 0 { vec![pc("10.0.0.0/8", 8, 8)] } else { vec![pc("10.0.0.0/8", 8, 16), pc("11.0.0.0/8", 8, 8)] };
+            DefinedSetConfig::Prefix { name, prefixes }
+        }
+        SK::AsPath => DefinedSetConfig::AsPath { name, patterns: vec![if content == 0 { "_1_".to_string() } else { "^2_".to_string() }] },
+    }
+}
+
+fn crud_probe_routes() -> Vec<RRoute> {
+    let mk = |a: u8, len: u8, path: Vec<u32>| {
+        let mut r = RRoute::v4(a, 0, 0, 0, len);
+        r.as_path = Some(vec![(SEG_SEQ, path)]);
+        r.med = Some(50);
+        r
+    };
+    vec![mk(10, 8, vec![1]), mk(10, 16, vec![2]), mk(11, 8, vec![1, 2]), mk(12, 8, vec![3]), mk(10, 8, vec![3])]
+}
+
+struct CrudSys {
+    pt: PolicyTable,
+    /// 0 = global import, 1 = global export, 2 = per-peer export override
+    slot: [Option<Arc<PolicyAssignment>>; 3],
+    rec: [Vec<u8>; 3],
+    stale: Vec<(Arc<PolicyAssignment>, usize, Vec<u8>)>,
+    broken: bool,
+    last: u8,
+}
+
+fn slot_dir(i: usize) -> Dir {
+    if i == 0 { Dir::Import } else { Dir::Export }
+}
+
+fn behaviour(a: &PolicyAssignment, slot: usize) -> Vec<u8> {
+    let mut b = Vec::new();
+    for r in crud_probe_routes() {
+        let env = Env::of(slot_dir(slot), &r);
+        b.extend(outcome_code(&eval_subject(a, &r, &env)));
+        b.push(b'|');
+    }
+    b
+}
+
+// ---- canonical dumps through public fields --------------------------------
+
+fn prefix_set_dump(s: &rustybgp_table::PrefixSet) -> String {
+    let mut v: Vec<String> = Vec::new();
+    for (a, m, p) in s.v4.iter() {
+        v.push(format!("{a}/{m}[{}..{}]", p.min_length, p.max_length));
+    }
+    for (a, m, p) in s.v6.iter() {
+        v.push(format!("{a}/{m}[{}..{}]", p.min_length, p.max_length));
+    }
+    v.sort();
+    format!("prefix{{{} z4={:?} z6={:?}}}", v.join(","), s.zero, s.zero6)
+}
+fn aspath_set_dump(s: &rustybgp_table::AsPathSet) -> String {
+    let r: Vec<&str> = s.sets.iter().map(|r| r.as_str()).collect();
+    format!("aspath{{{:?} {:?}}}", s.single_sets, r)
+}
+fn regex_dump(kind: &str, v: &[impl AsRef<str>]) -> String {
+    format!("{kind}{{{}}}", v.iter().map(|r| r.as_ref().to_string()).collect::<Vec<_>>().join(","))
+}
+
+/// (kind, name, dump, address) of a set referenced by a condition
+fn cond_set_ref(c: &Condition) -> Option<(&'static str, String, String, usize)> {
+    match c {
+        Condition::Prefix(n, _, s) => Some(("prefix", n.clone(), prefix_set_dump(s), Arc::as_ptr(s) as usize)),
+        Condition::AsPath(n, _, s) => Some(("aspath", n.clone(), aspath_set_dump(s), Arc::as_ptr(s) as usize)),
+        Condition::Neighbor(n, _, s) => Some(("neighbor", n.clone(), format!("{}", s.sets.iter().map(|x| x.to_string()).collect::<Vec<_>>().join(",")), Arc::as_ptr(s) as usize)),
+        Condition::Community(n, _, s) => Some(("community", n.clone(), regex_dump("c", &s.sets.iter().map(|r| r.as_str()).collect::<Vec<_>>()), Arc::as_ptr(s) as usize)),
+        Condition::ExtCommunity(n, _, s) => Some(("ext", n.clone(), regex_dump("e", &s.sets.iter().map(|r| r.as_str()).collect::<Vec<_>>()), Arc::as_ptr(s) as usize)),
+        Condition::LargeCommunity(n, _, s) => Some(("large", n.clone(), regex_dump("l", &s.sets.iter().map(|r| r.as_str()).collect::<Vec<_>>()), Arc::as_ptr(s) as usize)),
+        _ => None,
+    }
+}
+
+fn cond_dump(c: &Condition) -> String {
+    let opt = |o: &MatchOption| i32::from(o);
+    match c {
+        Condition::Prefix(_, o, _) | Condition::AsPath(_, o, _) | Condition::Neighbor(_, o, _) | Condition::Community(_, o, _) | Condition::ExtCommunity(_, o, _) | Condition::LargeCommunity(_, o, _) => {
+            let (k, n, d, _) = cond_set_ref(c).unwrap();
+            format!("{k}:{n}:{}:{d}", opt(o))
+        }
+        Condition::AsPathLength(c, v) => format!("aslen:{}:{v}", i32::from(*c)),
+        Condition::LocalPrefEq(v) => format!("lp:{v}"),
+        Condition::MedEq(v) => format!("med:{v}"),
+        Condition::Origin(v) => format!("origin:{v}"),
+        Condition::Nexthop(v) => format!("nh:{v:?}"),
+        _ => "other".into(),
+    }
+}
+
+fn stmt_dump(s: &rustybgp_table::Statement) -> String {
+    let a = &s.actions;
+    format!(
+        "stmt {} if[{}] disp={:?} act[{:?} {:?} {:?} {:?} {:?} {:?} {:?} {:?}]",
+        s.name,
+        s.conditions.iter().map(cond_dump).collect::<Vec<_>>().join(" & "),
+        s.disposition,
+        a.nexthop,
+        a.community,
+        a.local_pref,
+        a.med,
+        a.as_prepend,
+        a.ext_community,
+        a.large_community,
+        a.origin
+    )
+}
+fn policy_dump(p: &rustybgp_table::Policy) -> String {
+    format!("policy {} [{}]", p.name, p.statements.iter().map(|s| stmt_dump(s)).collect::<Vec<_>>().join("; "))
+}
+fn asg_dump(a: &PolicyAssignment) -> String {
+    format!("asg {} default={:?} [{}]", a.name, a.disposition, a.policies.iter().map(|p| policy_dump(p)).collect::<Vec<_>>().join(" || "))
+}
+
+fn table_sets(pt: &PolicyTable) -> Vec<(&'static str, String, String, usize)> {
+    let mut v = Vec::new();
+    for s in pt.iter_defined_sets() {
+        match s {
+            DefinedSetRef::Prefix(n, s) => v.push(("prefix", n.to_string(), prefix_set_dump(s), s as *const _ as usize)),
+            DefinedSetRef::AsPath(n, s) => v.push(("aspath", n.to_string(), aspath_set_dump(s), s as *const _ as usize)),
+            DefinedSetRef::Neighbor(n, s) => v.push(("neighbor", n.to_string(), format!("{}", s.sets.iter().map(|x| x.to_string()).collect::<Vec<_>>().join(",")), s as *const _ as usize)),
+            DefinedSetRef::Community(n, s) => v.push(("community", n.to_string(), regex_dump("c", &s.sets.iter().map(|r| r.as_str()).collect::<Vec<_>>()), s as *const _ as usize)),
+            DefinedSetRef::ExtCommunity(n, s) => v.push(("ext", n.to_string(), regex_dump("e", &s.sets.iter().map(|r| r.as_str()).collect::<Vec<_>>()), s as *const _ as usize)),
+            DefinedSetRef::LargeCommunity(n, s) => v.push(("large", n.to_string(), regex_dump("l", &s.sets.iter().map(|r| r.as_str()).collect::<Vec<_>>()), s as *const _ as usize)),
+        }
+    }
+    v.sort();
+    v
+}
+
+/// Referential integrity: every referenced object is still present in the table under
+/// its name and is the object (or an object of identical content) its user holds.
+fn crud_integrity(sys: &CrudSys) -> Vec<(String, String)> {
+    let mut out = Vec::new();
+    let sets = table_sets(&sys.pt);
+    // statement -> set
+    let mut stmts: Vec<&rustybgp_table::Statement> = sys.pt.iter_statements(String::new()).collect();
+    stmts.sort_by(|a, b| a.name.cmp(&b.name));
+    for st in &stmts {
+        for c in &st.conditions {
+            if let Some((k, n, d, ptr)) = cond_set_ref(c) {
+                match sets.iter().find(|(k2, n2, _, _)| *k2 == k && *n2 == n) {
+                    None => out.push(("set-deleted-under-statement".to_string(), format!("{k}-set {n} is referenced by statement {} but no longer exists", st.name))),
+                    Some((_, _, d2, p2)) if *p2 != ptr && *d2 != d => {
+                        out.push(("set-changed-under-statement".to_string(), format!("{k}-set {n}: statement {} evaluates {d} but the table now lists {d2}", st.name)))
+                    }
+                    _ => {}
+                }
+            }
+        }
+    }
+    // policy -> statement
+    let mut pols: Vec<&rustybgp_table::Policy> = sys.pt.iter_policies(String::new()).collect();
+    pols.sort_by(|a, b| a.name.cmp(&b.name));
+    for p in &pols {
+        for s in &p.statements {
+            match stmts.iter().find(|t| t.name == s.name) {
+                None => out.push(("statement-deleted-under-policy".to_string(), format!("statement {} is used by policy {} but no longer exists", s.name, p.name))),
+                Some(t) if !std::ptr::eq(*t, Arc::as_ptr(s)) && stmt_dump(t) != stmt_dump(s) => {
+                    out.push(("statement-changed-under-policy".to_string(), format!("policy {} evaluates `{}` but the table now lists `{}`", p.name, stmt_dump(s), stmt_dump(t))))
+                }
+                _ => {}
+            }
+        }
+    }
+    // assignment -> policy
+    for (i, a) in sys.slot.iter().enumerate() {
+        let Some(a) = a else { continue };
+        let who = ["global import", "global export", "per-peer export"][i];
+        for p in &a.policies {
+            match pols.iter().find(|t| t.name == p.name) {
+                None => out.push(("policy-deleted-under-assignment".to_string(), format!("policy {} is used by the {who} assignment but no longer exists", p.name))),
+                Some(t) if !std::ptr::eq(*t, Arc::as_ptr(p)) && policy_dump(t) != policy_dump(p) => {
+                    out.push(("policy-changed-under-assignment".to_string(), format!("{who} assignment evaluates `{}` but the table now lists `{}`", policy_dump(p), policy_dump(t))))
+                }
+                _ => {}
+            }
+        }
+    }
+    // the table's own view of the global assignments equals what the daemon enforces
+    let listed: Vec<(i32, String)> = sys.pt.iter_assignments(0).map(|(d, a)| (d, asg_dump(a))).collect();
+    for (i, d) in [(0usize, 1i32), (1, 2)] {
+        let l = listed.iter().find(|(x, _)| *x == d).map(|(_, s)| s.clone());
+        let h = sys.slot[i].as_ref().map(|a| asg_dump(a));
+        if l != h {
+            out.push(("assignment-slot-diverged".to_string(), format!("direction {d}: table lists {l:?}, the installed assignment is {h:?}")));
+        }
+    }
+    out
+}
+
+struct CrudModel {
+    name: &'static str,
+    prefix: Vec<usize>,
+    ops: Vec<CrudOp>,
+}
+
+fn pname(i: usize) -> String {
+    format!("P{i}")
+}
+fn sname(i: usize) -> String {
+    format!("S{i}")
+}
+
+impl CrudModel {
+    fn apply(&self, sys: &mut CrudSys, op: &CrudOp) -> (Result<(), TableError>, [bool; 3]) {
+        let mut replaced = [false; 3];
+        let pd = |d: Dir| if d == Dir::Import { PolicyDirection::Import } else { PolicyDirection::Export };
+        let di = |d: Dir| if d == Dir::Import { 0 } else { 1 };
+        let mut store = |sys: &mut CrudSys, i: usize, new: Option<Arc<PolicyAssignment>>, replaced: &mut [bool; 3]| {
+            let same = match (&sys.slot[i], &new) {
+                (Some(a), Some(b)) => Arc::ptr_eq(a, b),
+                (None, None) => true,
+                _ => false,
+            };
+            if !same {
+                if let Some(old) = sys.slot[i].take() {
+                    let rec = std::mem::take(&mut sys.rec[i]);
+                    sys.stale.push((old, i, rec));
+                    if sys.stale.len() > 4 {
+                        sys.stale.remove(0);
+                    }
+                }
+                sys.rec[i] = new.as_ref().map(|a| behaviour(a, i)).unwrap_or_default();
+                sys.slot[i] = new;
+                replaced[i] = true;
+            }
+        };
+        let peer_refs = |sys: &CrudSys, name: &str| sys.slot[2].as_ref().is_some_and(|a| a.policies.iter().any(|p| p.name.as_ref() == name));
+        let r: Result<(), TableError> = match op {
+            CrudOp::SetAdd(k, n, c) => sys.pt.add_defined_set(crud_set_cfg(*k, *n, *c)),
+            CrudOp::SetReplace(k, n, c) => sys.pt.replace_defined_set(crud_set_cfg(*k, *n, *c)),
+            CrudOp::SetDelAll(k, n) => sys.pt.delete_defined_set(crud_set_cfg(*k, *n, 0), true),
+            CrudOp::SetDelPart(k, n, c) => sys.pt.delete_defined_set(crud_set_cfg(*k, *n, *c), false),
+            CrudOp::StmtAdd(n, variant) => {
+                let (conds, disp, acts) = match variant {
+                    0 => (vec![ConditionConfig::PrefixSet("X0".into(), MatchOption::Any)], Some(Disposition::Accept), Actions { local_pref: Some(LocalPrefAction { value: 200 }), ..Default::default() }),
+                    1 => (vec![ConditionConfig::PrefixSet("X1".into(), MatchOption::Any)], Some(Disposition::Reject), Actions::default()),
+                    2 => (vec![ConditionConfig::AsPathSet("X0".into(), MatchOption::Any)], None, Actions::default()),
+                    _ => (vec![], None, Actions { med: Some(MedAction { action_type: MedActionType::Replace, value: 7 }), ..Default::default() }),
+                };
+                sys.pt.add_statement(&sname(*n), conds, disp, acts)
+            }
+            CrudOp::StmtDelAll(n) => sys.pt.delete_statement(&sname(*n), true, vec![], None, Actions::default()),
+            CrudOp::StmtDelPrefixCond(n) => sys.pt.delete_statement(&sname(*n), false, vec![ConditionConfig::PrefixSet(String::new(), MatchOption::Any)], None, Actions::default()),
+            CrudOp::PolAdd(n, ss) => {
+                if peer_refs(sys, &pname(*n)) {
+                    Err(TableError::StillInUse(pname(*n)))
+                } else {
+                    sys.pt.add_policy(&pname(*n), ss.iter().map(|s| sname(*s)).collect())
+                }
+            }
+            CrudOp::PolDel { name, preserve, all, stmts } => {
+                if peer_refs(sys, &pname(*name)) {
+                    Err(TableError::StillInUse(pname(*name)))
+                } else {
+                    match sys.pt.delete_policy(&pname(*name), *preserve, *all, stmts.iter().map(|s| sname(*s)).collect()) {
+                        Ok((i, e)) => {
+                            store(sys, 0, i, &mut replaced);
+                            store(sys, 1, e, &mut replaced);
+                            Ok(())
+                        }
+                        Err(e) => Err(e),
+                    }
+                }
+            }
+            CrudOp::AsgAdd(d, p) => {
+                let default = if *p == 0 { Disposition::Accept } else { Disposition::Reject };
+                match sys.pt.add_assignment("global", pd(*d), default, vec![pname(*p)]) {
+                    Ok((dir, a)) => {
+                        store(sys, if dir == PolicyDirection::Import { 0 } else { 1 }, Some(a), &mut replaced);
+                        Ok(())
+                    }
+                    Err(e) => Err(e),
+                }
+            }
+            CrudOp::AsgSet(d, ps) => match sys.pt.set_policy_assignment("global", pd(*d), Disposition::Accept, ps.iter().map(|p| pname(*p)).collect()) {
+                Ok(a) => {
+                    store(sys, di(*d), Some(a), &mut replaced);
+                    Ok(())
+                }
+                Err(e) => Err(e),
+            },
+            CrudOp::AsgDelAll(d) => match sys.pt.delete_policy_assignment(pd(*d), &[], true) {
+                Ok(a) => {
+                    store(sys, di(*d), a, &mut replaced);
+                    Ok(())
+                }
+                Err(e) => Err(e),
+            },
+            CrudOp::AsgDelPart(d, p) => match sys.pt.delete_policy_assignment(pd(*d), &[pname(*p)], false) {
+                Ok(a) => {
+                    store(sys, di(*d), a, &mut replaced);
+                    Ok(())
+                }
+                Err(e) => Err(e),
+            },
+            CrudOp::PeerAdd(p) => {
+                let existing = sys.slot[2].clone();
+                match sys.pt.build_assignment(existing.as_deref(), "10.0.0.9", PolicyDirection::Export, Disposition::Reject, vec![pname(*p)]) {
+                    Ok(a) => {
+                        store(sys, 2, Some(a), &mut replaced);
+                        Ok(())
+                    }
+                    Err(e) => Err(e),
+                }
+            }
+            CrudOp::PeerSet(p) => match sys.pt.build_assignment(None, "10.0.0.9", PolicyDirection::Export, Disposition::Accept, vec![pname(*p)]) {
+                Ok(a) => {
+                    store(sys, 2, Some(a), &mut replaced);
+                    Ok(())
+                }
+                Err(e) => Err(e),
+            },
+            CrudOp::PeerDelAll => {
+                store(sys, 2, None, &mut replaced);
+                Ok(())
+            }
+            CrudOp::PeerDelPart(p) => match sys.slot[2].clone() {
+                None => Err(TableError::NotFound),
+                Some(old) => {
+                    let n = old.without_policies(&[pname(*p)]);
+                    store(sys, 2, Some(n), &mut replaced);
+                    Ok(())
+                }
+            },
+        };
+        (r, replaced)
+    }
+
+    fn do_step(&self, sys: &mut CrudSys, op: &CrudOp, out: &mut Vec<(String, String)>) {
+        let held_before: Vec<Option<Arc<PolicyAssignment>>> = sys.slot.iter().cloned().collect();
+        let (r, replaced) = self.apply(sys, op);
+        sys.last = match &r {
+            Ok(()) => 0,
+            Err(TableError::StillInUse(_)) => 1,
+            Err(TableError::NotFound) => 2,
+            Err(TableError::InvalidArgument(_)) => 3,
+            Err(TableError::AlreadyExists(_)) => 4,
+        };
+        CRUD_RESULTS[sys.last as usize].fetch_add(1, std::sync::atomic::Ordering::Relaxed);
+        let opk = format!("{op:?}");
+        let opk = opk.split(|c: char| c == '(' || c == ' ' || c == '{').next().unwrap_or("").to_string();
+        let res = if r.is_ok() { "ok".to_string() } else { format!("{:?}", r.as_ref().err().unwrap()) };
+        // 1. every held assignment evaluates as before unless this op replaced it
+        for i in 0..3 {
+            if replaced[i] {
+                continue;
+            }
+            if let Some(a) = &sys.slot[i] {
+                debug_assert!(held_before[i].as_ref().is_some_and(|b| Arc::ptr_eq(a, b)));
+                if behaviour(a, i) != sys.rec[i] {
+                    out.push((format!("C14/in-use/held-assignment-changed/op={opk}"), format!("after {op:?} -> {res} the installed {} assignment evaluates differently on the probe routes although it was not replaced", ["import", "export", "per-peer"][i])));
+                }
+            }
+        }
+        for (a, i, rec) in &sys.stale {
+            if behaviour(a, *i) != *rec {
+                out.push((format!("C14/in-use/stale-held-assignment-changed/op={opk}"), format!("after {op:?} -> {res} an earlier-obtained Arc<PolicyAssignment> (as held by an in-flight reader) evaluates differently")));
+            }
+        }
+        // 2. nothing that is still referenced was deleted or changed underneath its user
+        for (clause, detail) in crud_integrity(sys) {
+            out.push((format!("C14/in-use/{clause}/op={opk}"), format!("after {op:?} -> {res}: {detail}")));
+        }
+        if !out.is_empty() {
+            sys.broken = true;
+        }
+    }
+}
+
+static CRUD_RESULTS: [std::sync::atomic::AtomicU64; 5] = [
+    std::sync::atomic::AtomicU64::new(0),
+    std::sync::atomic::AtomicU64::new(0),
+    std::sync::atomic::AtomicU64::new(0),
+    std::sync::atomic::AtomicU64::new(0),
+    std::sync::atomic::AtomicU64::new(0),
+];
+
+impl bfs::Model for CrudModel {
+    type Sys = CrudSys;
+    fn name(&self) -> String {
+        self.name.to_string()
+    }
+    fn n_ops(&self) -> usize {
+        self.ops.len()
+    }
+    fn op_name(&self, op: usize) -> String {
+        format!("{:?}", self.ops[op])
+    }
+    fn init(&self) -> CrudSys {
+        let mut sys = CrudSys { pt: PolicyTable::new(), slot: [None, None, None], rec: [vec![], vec![], vec![]], stale: vec![], broken: false, last: 0 };
+        let mut sink = Vec::new();
+        for &o in &self.prefix {
+            self.do_step(&mut sys, &self.ops[o], &mut sink);
+        }
+        assert!(sink.is_empty(), "crud init must be clean: {sink:?}");
+        sys
+    }
+    fn step(&self, sys: &mut CrudSys, op: usize, out: &mut Vec<(String, String)>) -> bool {
+        if sys.broken {
+            return false;
+        }
+        self.do_step(sys, &self.ops[op], out);
+        true
+    }
+    fn fingerprint(&self, sys: &CrudSys) -> Vec<u8> {
+        let mut s = String::new();
+        for (k, n, d, _) in table_sets(&sys.pt) {
+            s += &format!("{k}:{n}:{d}\n");
+        }
+        let mut v: Vec<String> = sys.pt.iter_statements(String::new()).map(stmt_dump).collect();
+        v.sort();
+        s += &v.join("\n");
+        let mut v: Vec<String> = sys.pt.iter_policies(String::new()).map(policy_dump).collect();
+        v.sort();
+        s += &v.join("\n");
+        for (d, a) in sys.pt.iter_assignments(0) {
+            s += &format!("\nlisted {d} {}", asg_dump(a));
+        }
+        for (i, a) in sys.slot.iter().enumerate() {
+            s += &format!("\nslot {i} {:?}", a.as_ref().map(|a| asg_dump(a)));
+        }
+        s += &format!("\nbroken={}", sys.broken);
+        s.into_bytes()
+    }
+    fn observe(&self, sys: &CrudSys) -> u64 {
+        let n = (sys.pt.iter_defined_sets().count(), sys.pt.iter_statements(String::new()).count(), sys.pt.iter_policies(String::new()).count());
+        hash64(format!("{} {:?} {:?}", sys.last, n, sys.slot.iter().map(|s| s.as_ref().map(|a| a.policies.len())).collect::<Vec<_>>()).as_bytes())
+    }
+    fn panic_sig(&self, msg: &str) -> Option<(String, String)> {
+        Some((format!("C14/no-panic/crud/{}", bfs::panic_loc(msg)), format!("PolicyTable CRUD or evaluation panicked: {msg}")))
+    }
+}
+
+fn crud_models() -> Vec<CrudModel> {
+    let ops = crud_ops();
+    let find = |want: &str| ops.iter().position(|o| format!("{o:?}") == want).unwrap_or_else(|| panic!("crud op {want} missing"));
+    // populated start: X0, X1, aspath X0, S0(X0), S1(X1), P0=[S0], P1=[S1], import=[P0], peer=[P1]
+    let prefix = vec![
+        find("SetAdd(Prefix, 0, 0)"),
+        find("SetAdd(Prefix, 1, 0)"),
+        find("SetAdd(AsPath, 0, 0)"),
+        find("StmtAdd(0, 0)"),
+        find("StmtAdd(1, 1)"),
+        find("PolAdd(0, [0])"),
+        find("PolAdd(1, [1])"),
+        find("AsgAdd(Import, 0)"),
+        find("PeerAdd(1)"),
+    ];
+    vec![CrudModel { name: "crud-empty", prefix: vec![], ops: ops.clone() }, CrudModel { name: "crud-full", prefix, ops }]
+}
+
+fn crud_run(rep: &mut Report, thorough: bool) {
+    let depth = if thorough { 5 } else { 4 };
+    for m in crud_models() {
+        let cfg = BfsCfg { max_depth: depth, max_secs: if thorough { 900 } else { 25 }, ..Default::default() };
+        rep.notes.push(format!("{}: {} ops over names X0,X1 / S0,S1 / P0,P1, global import+export slots and one per-peer export override; depth {}", m.name, m.ops.len(), depth));
+        bfs::bfs(&m, &cfg, rep);
+    }
+    let c: Vec<u64> = CRUD_RESULTS.iter().map(|a| a.load(std::sync::atomic::Ordering::Relaxed)).collect();
+    rep.notes.push(format!("crud: op results over all (re-)executions: ok={} StillInUse={} NotFound={} InvalidArgument={} AlreadyExists={}", c[0], c[1], c[2], c[3], c[4]));
+    rep.add("crud_still_in_use_results", c[1]);
+}
+
+fn crud_replay(mut rep: Report, case: &str) -> Report {
+    let Some((name, hist)) = bfs::decode_case(case) else {
+        rep.machinery_error = Some("bad replay case".into());
+        return rep;
+    };
+    let models = crud_models();
+    let Some(m) = models.iter().find(|m| m.name == name) else {
+        rep.machinery_error = Some(format!("unknown model {name}"));
+        return rep;
+    };
+    eprintln!("replay {}", bfs::render(m, &hist));
+    let vs = bfs::replay(m, &hist, true);
+    rep.evaluations = 1;
+    rep.violations_from(vs);
     rep
 }
